@@ -1,12 +1,27 @@
 /-
   Property C12: bindings are transparent — substitution theorems.
 
-  * `callFn_le`   : every function body is *parametric* in its argument evaluator: related
-                    evaluators / argument lists give related results (`Le`: "is overflow, or equal").
-  * `eval_fuel_mono` : more depth fuel never changes a result that is not `overflow`.
-  * `subst_var`   : `(set n x e)` is substitution of `x` for the free `:n` of `e`.
-  * `subst_macro` : `(define n m e)` is substitution of the body `m` for the free `@n` of `e`.
-  * presets / selects / pipes at the stage level.
+  Core
+  * `callFn_le2` / `callFn_le` : every function body is *parametric* in its argument evaluator, argument
+      list and context: related inputs give related results (`Le a b`: "`a` is overflow, or `a = b`").
+  * `eval_fuel_mono` (+ `_panic`, `eval_fuel_stable`) : more depth fuel never changes an outcome other
+      than `overflow`.
+  Variables
+  * `subst_var` : where `:n` is bound to `x`, `e` and `substVar n x e` evaluate alike (same fuel).
+  * `set_is_substitution`, `set_frame`, `set_extract`; closed form `set_is_substitution_lexical`
+      (original context) for the lexical fragment, via `eval_agree` (irrelevance of unread variables).
+  Macros
+  * `subst_macro` / `subst_macro_conv` : `@n` ↦ body, up to one unit of fuel;
+    `define_is_substitution(_conv)`, closed form `define_is_substitution_lexical`.
+  * `Ex.define_body_dynamic`, `Ex.define_body_dynamic_macro`, `Ex.computed_name_rebinds` :
+      counter-examples showing where substitution has to stop (macro bodies are dynamically scoped).
+  Stages
+  * `presets_are_substitution`, `processP_subst_var`, `preset_select_subst`, `presetCtx_frame`
+  * `selects_see_same_ctx`, `processP_selects`, `process_selects`, `select_extract_same`
+  * `pipe_threads_n`, `pipeGo_stops`, `pipe_threads_3`, `pipeCtx_frame`
+
+  Design choice for `substVar`: under a `set` whose name argument is not a literal string the body is
+  left alone (sound without a side condition); the macro body of a `define` is always left alone.
 -/
 import Jawk.Model.Eval
 import Jawk.Model.Stages
@@ -54,36 +69,53 @@ theorem Args.drop {Q l l'} (h : Args Q l l') (k : Nat) : Args Q (l.drop k) (l'.d
     | zero => exact Args.cons hq hr
     | succ k => simpa using ih k
 
-/-- the evaluator relation on a pair of argument expressions in every context that has the
-variables and definitions of `ctx` -/
-def QArg (ev ev' : Ev) (ctx : Ctx) (e e' : Expr) : Prop :=
-  ∀ c : Ctx, c.vars = ctx.vars → c.defs = ctx.defs → Le (ev e c) (ev' e' c)
+/-! ### Parametricity of the function bodies, two contexts
 
-structure Hyp (ev ev' : Ev) (fn : String) (args args' : List Expr) (ctx : Ctx) : Prop where
-  rel : Args (QArg ev ev' ctx) args args'
-  same : ∀ e c, Le (ev e c) (ev' e c)
+`ev`, `args`, `ctx` on the left; `ev'`, `args'`, `ctx'` on the right; `CR` relates the contexts in
+which corresponding arguments are evaluated (it contains `(ctx, ctx')` and is closed under `withInput`). -/
+
+/-- the evaluator relation on a pair of argument expressions, in related contexts -/
+def QArg2 (ev ev' : Ev) (CR : Ctx → Ctx → Prop) (e e' : Expr) : Prop :=
+  ∀ c c' : Ctx, CR c c' → Le (ev e c) (ev' e' c')
+
+structure Hyp2 (ev ev' : Ev) (fn : String) (args args' : List Expr) (ctx ctx' : Ctx)
+    (CR : Ctx → Ctx → Prop) : Prop where
+  cr0 : CR ctx ctx'
+  crIn : ∀ c c' v, CR c c' → CR (c.withInput v) (c'.withInput v)
+  inp : ∀ c c', CR c c' → c.input = c'.input
+  rel : Args (QArg2 ev ev' CR) args args'
+  /-- macro bodies (`@`) and parsed selections: the same expression on both sides -/
+  same : fn = "@" ∨ fn = "parse_selection" → ∀ e, Le (ev e ctx) (ev' e ctx')
+  var : fn = ":" → ∀ k, ctx.getVariable k = ctx'.getVariable k
+  mac : fn = "@" → ∀ k, ctx.getDefinition k = ctx'.getDefinition k
   setb : fn = "set" → ∀ r k v, applyArg ev args ctx 0 = .ok r → strArg r = some k →
-    Le (applyArg ev args (ctx.withVariable k v) 2) (applyArg ev' args' (ctx.withVariable k v) 2)
+    Le (applyArg ev args (ctx.withVariable k v) 2) (applyArg ev' args' (ctx'.withVariable k v) 2)
   defb : fn = "define" → args[1]? = args'[1]? ∧ ∀ r k d, applyArg ev args ctx 0 = .ok r → strArg r = some k →
     args[1]? = some d →
-    Le (applyArg ev args (ctx.withDefinition k d) 2) (applyArg ev' args' (ctx.withDefinition k d) 2)
+    Le (applyArg ev args (ctx.withDefinition k d) 2) (applyArg ev' args' (ctx'.withDefinition k d) 2)
 
-theorem applyArg_le {ev ev' : Ev} {ctx : Ctx} {args args'} (h : Args (QArg ev ev' ctx) args args') (i : Nat) (c : Ctx)
-    (hv : c.vars = ctx.vars) (hd : c.defs = ctx.defs) :
-    Le (applyArg ev args c i) (applyArg ev' args' c i) := by
+theorem Hyp2.crIn0 {ev ev' fn args args' ctx ctx' CR} (H : Hyp2 ev ev' fn args args' ctx ctx' CR) (v : JV) :
+    CR (ctx.withInput v) (ctx'.withInput v) := H.crIn _ _ v H.cr0
+
+theorem Hyp2.crPipe {ev ev' fn args args' ctx ctx' CR} (H : Hyp2 ev ev' fn args args' ctx ctx' CR) :
+    CR (ctx.withInput ctx.input) (ctx'.withInput ctx'.input) := by
+  rw [← H.inp _ _ H.cr0]; exact H.crIn0 _
+
+theorem applyArg_le2 {ev ev' : Ev} {CR} {args args'} (h : Args (QArg2 ev ev' CR) args args') (i : Nat)
+    (c c' : Ctx) (hc : CR c c') : Le (applyArg ev args c i) (applyArg ev' args' c' i) := by
   unfold applyArg
   rcases h.get i with ⟨h1, h2⟩ | ⟨e, e', h1, h2, hq⟩
   · rw [h1, h2]; exact Le.refl _
-  · rw [h1, h2]; exact hq c hv hd
+  · rw [h1, h2]; exact hq c c' hc
 
-theorem foldArgs_le {σ} {ev ev' : Ev} {ctx : Ctx} {step : σ → Option JV → Except Abort (Sum (Option JV) σ)}
-    {fin : σ → Option JV} {args args'} (h : Args (QArg ev ev' ctx) args args') (s : σ) :
-    Le (foldArgs ev ctx step fin args s) (foldArgs ev' ctx step fin args' s) := by
+theorem foldArgs_le2 {σ} {ev ev' : Ev} {CR} {ctx ctx' : Ctx} {step : σ → Option JV → Except Abort (Sum (Option JV) σ)}
+    {fin : σ → Option JV} {args args'} (h : Args (QArg2 ev ev' CR) args args') (hc : CR ctx ctx') (s : σ) :
+    Le (foldArgs ev ctx step fin args s) (foldArgs ev' ctx' step fin args' s) := by
   induction h generalizing s with
   | nil => exact Le.refl _
   | cons hq _ ih =>
     unfold foldArgs
-    apply Le.bind (hq ctx rfl rfl)
+    apply Le.bind (hq _ _ hc)
     intro v _
     apply Le.bind (Le.refl _)
     intro r _
@@ -103,35 +135,37 @@ theorem mapM'_le {α β} {f f' : α → Except Abort β} (l : List α) (hf : ∀
     intro ys _
     exact Le.refl _
 
-theorem mapM'_args_le {ev ev' : Ev} {ctx : Ctx} {args args'} (h : Args (QArg ev ev' ctx) args args') :
-    Le (mapM' (fun e => ev e ctx) args) (mapM' (fun e => ev' e ctx) args') := by
+theorem mapM'_args_le2 {ev ev' : Ev} {CR} {ctx ctx' : Ctx} {args args'} (h : Args (QArg2 ev ev' CR) args args')
+    (hc : CR ctx ctx') :
+    Le (mapM' (fun e => ev e ctx) args) (mapM' (fun e => ev' e ctx') args') := by
   induction h with
   | nil => exact Le.refl _
   | cons hq _ ih =>
     unfold mapM'
-    apply Le.bind (hq ctx rfl rfl)
+    apply Le.bind (hq _ _ hc)
     intro y _
     apply Le.bind ih
     intro ys _
     exact Le.refl _
 
-
-theorem pipeGo_le {ev ev' : Ev} {ctx : Ctx} {es es'} (h : Args (QArg ev ev' ctx) es es') :
-    ∀ c : Ctx, c.vars = ctx.vars → c.defs = ctx.defs → Le (callBasic.go ev c es) (callBasic.go ev' c es') := by
+theorem pipeGo_le2 {ev ev' : Ev} {CR : Ctx → Ctx → Prop} {es es'} (h : Args (QArg2 ev ev' CR) es es')
+    (hin : ∀ c c' v, CR c c' → CR (c.withInput v) (c'.withInput v)) (hinp : ∀ c c', CR c c' → c.input = c'.input) :
+    ∀ c c' : Ctx, CR c c' → Le (callBasic.go ev c es) (callBasic.go ev' c' es') := by
   induction h with
-  | nil => intro c _ _; exact Le.refl _
+  | nil => intro c c' hc; unfold callBasic.go; rw [hinp c c' hc]; exact Le.refl _
   | cons hq _ ih =>
-    intro c hv hd
+    intro c c' hc
     unfold callBasic.go
-    apply Le.bind (hq c hv hd)
+    apply Le.bind (hq c c' hc)
     intro v _
     split
-    · exact ih _ hv hd
+    · exact ih _ _ (hin _ _ _ hc)
     · exact Le.refl _
 
-theorem foldGo_le {ev ev' : Ev} {ctx : Ctx} {f f' : Expr} (hq : QArg ev ev' ctx f f') :
+theorem foldGo_le2 {ev ev' : Ev} {CR : Ctx → Ctx → Prop} {ctx ctx' : Ctx} {f f' : Expr} (hq : QArg2 ev ev' CR f f')
+    (hc : ∀ v, CR (ctx.withInput v) (ctx'.withInput v)) :
     ∀ (l : List JV) (cur : Option JV) (idx : Nat),
-      Le (callList.foldGo ev ctx f cur idx l) (callList.foldGo ev' ctx f' cur idx l) := by
+      Le (callList.foldGo ev ctx f cur idx l) (callList.foldGo ev' ctx' f' cur idx l) := by
   intro l
   induction l with
   | nil => intro cur idx; exact Le.refl _
@@ -139,7 +173,7 @@ theorem foldGo_le {ev ev' : Ev} {ctx : Ctx} {f f' : Expr} (hq : QArg ev ev' ctx 
     intro cur idx
     unfold callList.foldGo
     dsimp only
-    refine Le.bind (hq _ rfl rfl) ?_
+    refine Le.bind (hq _ _ (hc _)) ?_
     intro next _
     exact ih _ _
 
@@ -154,25 +188,28 @@ theorem foldSel {Q args args'} (h : Args Q args args') :
 
 macro "le_step" : tactic => `(tactic| first
   | exact Le.refl _
-  | exact applyArg_le (Hyp.rel ‹Hyp _ _ _ _ _ _›) _ _ (by rfl) (by rfl)
-  | exact foldArgs_le (Hyp.rel ‹Hyp _ _ _ _ _ _›) _
-  | exact Hyp.same ‹Hyp _ _ _ _ _ _› _ _
-  | exact pipeGo_le (Hyp.rel ‹Hyp _ _ _ _ _ _›) _ (by rfl) (by rfl)
-  | exact (Hyp.defb ‹Hyp _ _ _ _ _ _› rfl).2 _ _ _ ‹_› ‹_› ‹_›
-  | exact mapM'_args_le (Hyp.rel ‹Hyp _ _ _ _ _ _›)
-  | exact mapM'_args_le ((Hyp.rel ‹Hyp _ _ _ _ _ _›).drop _)
+  | exact applyArg_le2 (Hyp2.rel ‹Hyp2 _ _ _ _ _ _ _ _›) _ _ _ (Hyp2.cr0 ‹Hyp2 _ _ _ _ _ _ _ _›)
+  | exact applyArg_le2 (Hyp2.rel ‹Hyp2 _ _ _ _ _ _ _ _›) _ _ _ (Hyp2.crIn0 ‹Hyp2 _ _ _ _ _ _ _ _› _)
+  | exact foldArgs_le2 (Hyp2.rel ‹Hyp2 _ _ _ _ _ _ _ _›) (Hyp2.cr0 ‹Hyp2 _ _ _ _ _ _ _ _›) _
+  | exact Hyp2.same ‹Hyp2 _ _ _ _ _ _ _ _› (Or.inl rfl) _
+  | exact Hyp2.same ‹Hyp2 _ _ _ _ _ _ _ _› (Or.inr rfl) _
+  | exact pipeGo_le2 (Hyp2.rel ‹Hyp2 _ _ _ _ _ _ _ _›) (Hyp2.crIn ‹Hyp2 _ _ _ _ _ _ _ _›)
+      (Hyp2.inp ‹Hyp2 _ _ _ _ _ _ _ _›) _ _ (Hyp2.crPipe ‹Hyp2 _ _ _ _ _ _ _ _›)
+  | exact (Hyp2.defb ‹Hyp2 _ _ _ _ _ _ _ _› rfl).2 _ _ _ ‹_› ‹_› ‹_›
+  | exact mapM'_args_le2 (Hyp2.rel ‹Hyp2 _ _ _ _ _ _ _ _›) (Hyp2.cr0 ‹Hyp2 _ _ _ _ _ _ _ _›)
+  | exact mapM'_args_le2 ((Hyp2.rel ‹Hyp2 _ _ _ _ _ _ _ _›).drop _) (Hyp2.cr0 ‹Hyp2 _ _ _ _ _ _ _ _›)
   | (apply mapM'_le; intro _ _; try dsimp only)
-  | exact Hyp.setb ‹Hyp _ _ _ _ _ _› rfl _ _ _ ‹_› ‹_›
-  | (rcases foldSel (Hyp.rel ‹Hyp _ _ _ _ _ _›) with ⟨h1, h2⟩ | ⟨f, f', h1, h2, hq⟩ <;> simp only [h1, h2] <;>
-      first | exact Le.refl _ | exact foldGo_le hq _ _ _)
+  | exact Hyp2.setb ‹Hyp2 _ _ _ _ _ _ _ _› rfl _ _ _ ‹_› ‹_›
+  | (rcases foldSel (Hyp2.rel ‹Hyp2 _ _ _ _ _ _ _ _›) with ⟨h1, h2⟩ | ⟨f, f', h1, h2, hq⟩ <;> simp only [h1, h2] <;>
+      first | exact Le.refl _ | exact foldGo_le2 hq (Hyp2.crIn0 ‹Hyp2 _ _ _ _ _ _ _ _›) _ _ _)
   | (apply Le.bind)
   | intro _
   | split
   | dsimp only
   )
 
-theorem callNumber_le {ev ev' fn args args' ctx} (H : Hyp ev ev' fn args args' ctx) :
-   ∀ r, callNumber ev fn args ctx = some r → ∃ r', callNumber ev' fn args' ctx = some r' ∧ Le r r' := by
+theorem callNumber_le2 {ev ev' fn args args' ctx ctx' CR} (H : Hyp2 ev ev' fn args args' ctx ctx' CR) :
+   ∀ r, callNumber ev fn args ctx = some r → ∃ r', callNumber ev' fn args' ctx' = some r' ∧ Le r r' := by
   intro r h
   have hlen := H.rel.length_eq
   unfold callNumber at h
@@ -183,9 +220,8 @@ theorem callNumber_le {ev ev' fn args args' ctx} (H : Hyp ev ev' fn args args' c
   all_goals try simp only [hlen]
   all_goals repeat' le_step
 
-
-theorem callBasic_le {ev ev' fn args args' ctx} (H : Hyp ev ev' fn args args' ctx) :
-   ∀ r, callBasic ev fn args ctx = some r → ∃ r', callBasic ev' fn args' ctx = some r' ∧ Le r r' := by
+theorem callBasic_le2 {ev ev' fn args args' ctx ctx' CR} (H : Hyp2 ev ev' fn args args' ctx ctx' CR) :
+   ∀ r, callBasic ev fn args ctx = some r → ∃ r', callBasic ev' fn args' ctx' = some r' ∧ Le r r' := by
   intro r h
   have hlen := H.rel.length_eq
   unfold callBasic at h
@@ -195,10 +231,12 @@ theorem callBasic_le {ev ev' fn args args' ctx} (H : Hyp ev ev' fn args args' ct
   all_goals try dsimp only
   all_goals try simp only [hlen]
   all_goals try simp only [← (H.defb rfl).1]
+  all_goals try simp only [← H.var rfl]
+  all_goals try simp only [← H.mac rfl]
   all_goals repeat' le_step
 
-theorem callList_le {ev ev' fn args args' ctx} (H : Hyp ev ev' fn args args' ctx) :
-   ∀ r, callList ev fn args ctx = some r → ∃ r', callList ev' fn args' ctx = some r' ∧ Le r r' := by
+theorem callList_le2 {ev ev' fn args args' ctx ctx' CR} (H : Hyp2 ev ev' fn args args' ctx ctx' CR) :
+   ∀ r, callList ev fn args ctx = some r → ∃ r', callList ev' fn args' ctx' = some r' ∧ Le r r' := by
   intro r h
   have hlen := H.rel.length_eq
   unfold callList at h
@@ -209,8 +247,8 @@ theorem callList_le {ev ev' fn args args' ctx} (H : Hyp ev ev' fn args args' ctx
   all_goals try simp only [hlen]
   all_goals repeat' le_step
 
-theorem callObject_le {ev ev' fn args args' ctx} (H : Hyp ev ev' fn args args' ctx) :
-   ∀ r, callObject ev fn args ctx = some r → ∃ r', callObject ev' fn args' ctx = some r' ∧ Le r r' := by
+theorem callObject_le2 {ev ev' fn args args' ctx ctx' CR} (H : Hyp2 ev ev' fn args args' ctx ctx' CR) :
+   ∀ r, callObject ev fn args ctx = some r → ∃ r', callObject ev' fn args' ctx' = some r' ∧ Le r r' := by
   intro r h
   have hlen := H.rel.length_eq
   unfold callObject at h
@@ -221,8 +259,8 @@ theorem callObject_le {ev ev' fn args args' ctx} (H : Hyp ev ev' fn args args' c
   all_goals try simp only [hlen]
   all_goals repeat' le_step
 
-theorem callString_le {ev ev' orc fn args args' ctx} (H : Hyp ev ev' fn args args' ctx) :
-   ∀ r, callString ev orc fn args ctx = some r → ∃ r', callString ev' orc fn args' ctx = some r' ∧ Le r r' := by
+theorem callString_le2 {ev ev' orc fn args args' ctx ctx' CR} (H : Hyp2 ev ev' fn args args' ctx ctx' CR) :
+   ∀ r, callString ev orc fn args ctx = some r → ∃ r', callString ev' orc fn args' ctx' = some r' ∧ Le r r' := by
   intro r h
   have hlen := H.rel.length_eq
   unfold callString at h
@@ -233,8 +271,8 @@ theorem callString_le {ev ev' orc fn args args' ctx} (H : Hyp ev ev' fn args arg
   all_goals try simp only [hlen]
   all_goals repeat' le_step
 
-theorem callNas_le {ev ev' orc fn args args' ctx} (H : Hyp ev ev' fn args args' ctx) :
-   ∀ r, callNas ev orc fn args ctx = some r → ∃ r', callNas ev' orc fn args' ctx = some r' ∧ Le r r' := by
+theorem callNas_le2 {ev ev' orc fn args args' ctx ctx' CR} (H : Hyp2 ev ev' fn args args' ctx ctx' CR) :
+   ∀ r, callNas ev orc fn args ctx = some r → ∃ r', callNas ev' orc fn args' ctx' = some r' ∧ Le r r' := by
   intro r h
   have hlen := H.rel.length_eq
   unfold callNas at h
@@ -306,30 +344,30 @@ theorem OLe.of {a b : Option R} (h1 : ∀ r, a = some r → ∃ r', b = some r' 
     | none => trivial
     | some r' => obtain ⟨r, hr⟩ := h2 r' rfl; cases hr
 
-/-- **Parametricity of function bodies**: `callFn` maps related evaluators and argument lists to
-related results. -/
-theorem callFn_le {ev ev' orc fn args args' ctx} (H : Hyp ev ev' fn args args' ctx) :
-    Le (callFn ev orc fn args ctx) (callFn ev' orc fn args' ctx) := by
-  have h1 : OLe (callBasic ev fn args ctx) (callBasic ev' fn args' ctx) :=
-    OLe.of (callBasic_le H) (callBasic_some ev args ctx)
-  have h2 : OLe (callList ev fn args ctx) (callList ev' fn args' ctx) :=
-    OLe.of (callList_le H) (callList_some ev args ctx)
-  have h3 : OLe (callObject ev fn args ctx) (callObject ev' fn args' ctx) :=
-    OLe.of (callObject_le H) (callObject_some ev args ctx)
-  have h4 : OLe (callNumber ev fn args ctx) (callNumber ev' fn args' ctx) :=
-    OLe.of (callNumber_le H) (callNumber_some ev args ctx)
-  have h5 : OLe (callString ev orc fn args ctx) (callString ev' orc fn args' ctx) :=
-    OLe.of (callString_le H) (callString_some ev args ctx)
-  have h6 : OLe (callNas ev orc fn args ctx) (callNas ev' orc fn args' ctx) :=
-    OLe.of (callNas_le H) (callNas_some ev args ctx)
+/-- **Parametricity of function bodies**: `callFn` maps related evaluators, argument lists and
+contexts to related results. -/
+theorem callFn_le2 {ev ev' orc fn args args' ctx ctx' CR} (H : Hyp2 ev ev' fn args args' ctx ctx' CR) :
+    Le (callFn ev orc fn args ctx) (callFn ev' orc fn args' ctx') := by
+  have h1 : OLe (callBasic ev fn args ctx) (callBasic ev' fn args' ctx') :=
+    OLe.of (callBasic_le2 H) (callBasic_some ev args ctx)
+  have h2 : OLe (callList ev fn args ctx) (callList ev' fn args' ctx') :=
+    OLe.of (callList_le2 H) (callList_some ev args ctx)
+  have h3 : OLe (callObject ev fn args ctx) (callObject ev' fn args' ctx') :=
+    OLe.of (callObject_le2 H) (callObject_some ev args ctx)
+  have h4 : OLe (callNumber ev fn args ctx) (callNumber ev' fn args' ctx') :=
+    OLe.of (callNumber_le2 H) (callNumber_some ev args ctx)
+  have h5 : OLe (callString ev orc fn args ctx) (callString ev' orc fn args' ctx') :=
+    OLe.of (callString_le2 H) (callString_some ev args ctx)
+  have h6 : OLe (callNas ev orc fn args ctx) (callNas ev' orc fn args' ctx') :=
+    OLe.of (callNas_le2 H) (callNas_some ev args ctx)
   unfold callFn
   revert h1 h2 h3 h4 h5 h6
-  generalize callBasic ev fn args ctx = a1, callBasic ev' fn args' ctx = b1,
-    callList ev fn args ctx = a2, callList ev' fn args' ctx = b2,
-    callObject ev fn args ctx = a3, callObject ev' fn args' ctx = b3,
-    callNumber ev fn args ctx = a4, callNumber ev' fn args' ctx = b4,
-    callString ev orc fn args ctx = a5, callString ev' orc fn args' ctx = b5,
-    callNas ev orc fn args ctx = a6, callNas ev' orc fn args' ctx = b6
+  generalize callBasic ev fn args ctx = a1, callBasic ev' fn args' ctx' = b1,
+    callList ev fn args ctx = a2, callList ev' fn args' ctx' = b2,
+    callObject ev fn args ctx = a3, callObject ev' fn args' ctx' = b3,
+    callNumber ev fn args ctx = a4, callNumber ev' fn args' ctx' = b4,
+    callString ev orc fn args ctx = a5, callString ev' orc fn args' ctx' = b5,
+    callNas ev orc fn args ctx = a6, callNas ev' orc fn args' ctx' = b6
   intro h1 h2 h3 h4 h5 h6
   cases a1 <;> cases b1 <;> try exact h1.elim
   case some.some => exact h1
@@ -344,6 +382,44 @@ theorem callFn_le {ev ev' orc fn args args' ctx} (H : Hyp ev ev' fn args args' c
   cases a6 <;> cases b6 <;> try exact h6.elim
   case some.some => exact h6
   exact Le.refl _
+
+/-! ### One context -/
+
+/-- the evaluator relation on a pair of argument expressions in every context that has the
+variables and definitions of `ctx` -/
+def QArg (ev ev' : Ev) (ctx : Ctx) (e e' : Expr) : Prop :=
+  ∀ c : Ctx, c.vars = ctx.vars → c.defs = ctx.defs → Le (ev e c) (ev' e' c)
+
+/-- the one-context instance: both sides run in `ctx` -/
+structure Hyp (ev ev' : Ev) (fn : String) (args args' : List Expr) (ctx : Ctx) : Prop where
+  rel : Args (QArg ev ev' ctx) args args'
+  same : ∀ e c, Le (ev e c) (ev' e c)
+  setb : fn = "set" → ∀ r k v, applyArg ev args ctx 0 = .ok r → strArg r = some k →
+    Le (applyArg ev args (ctx.withVariable k v) 2) (applyArg ev' args' (ctx.withVariable k v) 2)
+  defb : fn = "define" → args[1]? = args'[1]? ∧ ∀ r k d, applyArg ev args ctx 0 = .ok r → strArg r = some k →
+    args[1]? = some d →
+    Le (applyArg ev args (ctx.withDefinition k d) 2) (applyArg ev' args' (ctx.withDefinition k d) 2)
+
+theorem Args.mono {Q Q' : Expr → Expr → Prop} (hq : ∀ e e', Q e e' → Q' e e') {l l'} (h : Args Q l l') :
+    Args Q' l l' := by
+  induction h with
+  | nil => exact Args.nil
+  | cons h1 _ ih => exact Args.cons (hq _ _ h1) ih
+
+theorem Hyp.to2 {ev ev' fn args args' ctx} (H : Hyp ev ev' fn args args' ctx) :
+    Hyp2 ev ev' fn args args' ctx ctx (fun c c' => c = c' ∧ c.vars = ctx.vars ∧ c.defs = ctx.defs) where
+  cr0 := ⟨rfl, rfl, rfl⟩
+  crIn := fun c c' v h => ⟨by rw [h.1], h.2.1, h.2.2⟩
+  inp := fun c c' h => by rw [h.1]
+  rel := H.rel.mono (fun e e' hq c c' h => by rw [← h.1]; exact hq c h.2.1 h.2.2)
+  same := fun _ e => H.same e ctx
+  var := fun _ _ => rfl
+  mac := fun _ _ => rfl
+  setb := H.setb
+  defb := H.defb
+
+theorem callFn_le {ev ev' orc fn args args' ctx} (H : Hyp ev ev' fn args args' ctx) :
+    Le (callFn ev orc fn args ctx) (callFn ev' orc fn args' ctx) := callFn_le2 H.to2
 
 /-! ### facts about `Le` and `Args` -/
 
@@ -373,12 +449,6 @@ theorem Le.ok {α} {a b : Except Abort α} {r : α} (h : Le a b) (ha : a = .ok r
 theorem Le.panic {α} {a b : Except Abort α} {s : String} (h : Le a b) (ha : a = .error (.panic s)) :
     b = .error (.panic s) := by
   rw [h.eq_of_ne (by rw [ha]; intro h; cases h), ha]
-
-theorem Args.mono {Q Q' : Expr → Expr → Prop} (hq : ∀ e e', Q e e' → Q' e e') {l l'} (h : Args Q l l') :
-    Args Q' l l' := by
-  induction h with
-  | nil => exact Args.nil
-  | cons h1 _ ih => exact Args.cons (hq _ _ h1) ih
 
 theorem Args.refl {Q : Expr → Expr → Prop} (hq : ∀ e, Q e e) (l : List Expr) : Args Q l l := by
   induction l with
@@ -457,5 +527,1479 @@ theorem eval_fuel_agree (orc : Oracles) {f f' : Nat} {e : Expr} {ctx : Ctx}
   rcases Nat.le_total f f' with hl | hl
   · exact (eval_fuel_stable orc h hl).symm
   · exact eval_fuel_stable orc h' hl
+
+/-! ### Congruence (equality form) -/
+
+theorem applyArg_eq {Q : Expr → Expr → Prop} {ev : Ev} {c : Ctx} {args args'} (h : Args Q args args')
+    (hq : ∀ e e', Q e e' → ev e c = ev e' c) (i : Nat) :
+    applyArg ev args c i = applyArg ev args' c i := by
+  unfold applyArg
+  rcases h.get i with ⟨h1, h2⟩ | ⟨e, e', h1, h2, hq'⟩
+  · rw [h1, h2]
+  · rw [h1, h2]; exact hq _ _ hq'
+
+/-- the evaluator agrees on a pair of argument expressions in every context that has the
+variables and definitions of `ctx` -/
+def QEq (ev : Ev) (ctx : Ctx) (e e' : Expr) : Prop :=
+  ∀ c : Ctx, c.vars = ctx.vars → c.defs = ctx.defs → ev e c = ev e' c
+
+/-- hypotheses under which two argument lists are interchangeable for `fn` in `ctx` -/
+structure HypEq (ev : Ev) (fn : String) (args args' : List Expr) (ctx : Ctx) : Prop where
+  rel : Args (QEq ev ctx) args args'
+  setb : fn = "set" → ∀ r k v, applyArg ev args ctx 0 = .ok r → strArg r = some k →
+    applyArg ev args (ctx.withVariable k v) 2 = applyArg ev args' (ctx.withVariable k v) 2
+  defb : fn = "define" → args[1]? = args'[1]? ∧ ∀ k d,
+    applyArg ev args (ctx.withDefinition k d) 2 = applyArg ev args' (ctx.withDefinition k d) 2
+
+theorem HypEq.fwd {ev fn args args' ctx} (H : HypEq ev fn args args' ctx) : Hyp ev ev fn args args' ctx where
+  rel := H.rel.mono (fun _ _ h c hv hd => Le.of_eq (h c hv hd))
+  same := fun _ _ => Le.refl _
+  setb := fun hf r k v h1 h2 => Le.of_eq (H.setb hf r k v h1 h2)
+  defb := fun hf => ⟨(H.defb hf).1, fun _ k d _ _ _ => Le.of_eq ((H.defb hf).2 k d)⟩
+
+theorem HypEq.bwd {ev fn args args' ctx} (H : HypEq ev fn args args' ctx) : Hyp ev ev fn args' args ctx where
+  rel := H.rel.flip.mono (fun _ _ h c hv hd => Le.of_eq (h c hv hd).symm)
+  same := fun _ _ => Le.refl _
+  setb := fun hf r k v h1 h2 => by
+    have h0 : applyArg ev args ctx 0 = applyArg ev args' ctx 0 :=
+      applyArg_eq H.rel (fun e e' h => h ctx rfl rfl) 0
+    exact Le.of_eq (H.setb hf r k v (h0.trans h1) h2).symm
+  defb := fun hf => ⟨(H.defb hf).1.symm, fun _ k d _ _ _ => Le.of_eq ((H.defb hf).2 k d).symm⟩
+
+/-- interchangeable argument lists give the same result -/
+theorem callFn_congr {ev orc fn args args' ctx} (H : HypEq ev fn args args' ctx) :
+    callFn ev orc fn args ctx = callFn ev orc fn args' ctx :=
+  Le.antisymm (callFn_le H.fwd) (callFn_le H.bwd)
+
+/-! ### Substitution of a value for a variable -/
+
+mutual
+/-- replace the free occurrences of `:n` by the constant `x`.  `(set "n" v body)` with the literal
+name `n` binds `n` in `body` (not in `v`); under a `set` whose name is not a literal string the body is
+left alone (it may or may not rebind `n`); the macro body `d` of `(define k d body)` is left alone
+(macro bodies are evaluated where they are *used*: see `define_body_dynamic`). -/
+def substVar (n : Str) (x : JV) : Expr → Expr
+  | .var m => if m = n then .const x else .var m
+  | .call fn args =>
+    .call fn (if fn = "set" then substVarSet n x args
+      else if fn = "define" then substVarDefine n x args
+      else substVarList n x args)
+  | e => e
+def substVarSet (n : Str) (x : JV) : List Expr → List Expr
+  | .const (.str k) :: v :: rest =>
+    if k = n then .const (.str k) :: substVar n x v :: rest
+    else .const (.str k) :: substVar n x v :: substVarList n x rest
+  | nameE :: v :: rest => substVar n x nameE :: substVar n x v :: rest
+  | [e] => [substVar n x e]
+  | [] => []
+def substVarDefine (n : Str) (x : JV) : List Expr → List Expr
+  | nameE :: d :: rest => substVar n x nameE :: d :: substVarList n x rest
+  | [e] => [substVar n x e]
+  | [] => []
+def substVarList (n : Str) (x : JV) : List Expr → List Expr
+  | [] => []
+  | e :: es => substVar n x e :: substVarList n x es
+end
+
+/-- the argument list of a substituted call -/
+def substVarArgs (n : Str) (x : JV) (fn : String) (args : List Expr) : List Expr :=
+  if fn = "set" then substVarSet n x args
+  else if fn = "define" then substVarDefine n x args
+  else substVarList n x args
+
+theorem substVar_call (n : Str) (x : JV) (fn : String) (args : List Expr) :
+    substVar n x (.call fn args) = .call fn (substVarArgs n x fn args) := by
+  rw [substVar]; rfl
+
+/-- `e` and `e'` evaluate alike (fuel `f`) wherever `n` is bound to `x` -/
+def VQ (orc : Oracles) (f : Nat) (n : Str) (x : JV) (e e' : Expr) : Prop :=
+  ∀ c : Ctx, c.getVariable n = some x → eval orc f e c = eval orc f e' c
+
+section
+variable {orc : Oracles} {f : Nat} {n : Str} {x : JV}
+
+theorem VQ.refl (e : Expr) : VQ orc f n x e e := fun _ _ => rfl
+
+theorem args_list (ih : ∀ e, VQ orc f n x e (substVar n x e)) (l : List Expr) :
+    Args (VQ orc f n x) l (substVarList n x l) := by
+  induction l with
+  | nil => rw [substVarList]; exact Args.nil
+  | cons e es ihl => rw [substVarList]; exact Args.cons (ih e) ihl
+
+theorem args_set (ih : ∀ e, VQ orc f n x e (substVar n x e)) (l : List Expr) :
+    Args (VQ orc f n x) l (substVarSet n x l) := by
+  unfold substVarSet
+  split
+  · split
+    · exact Args.cons (VQ.refl _) (Args.cons (ih _) (Args.refl VQ.refl _))
+    · exact Args.cons (VQ.refl _) (Args.cons (ih _) (args_list ih _))
+  · exact Args.cons (ih _) (Args.cons (ih _) (Args.refl VQ.refl _))
+  · exact Args.cons (ih _) Args.nil
+  · exact Args.nil
+
+theorem args_define (ih : ∀ e, VQ orc f n x e (substVar n x e)) (l : List Expr) :
+    Args (VQ orc f n x) l (substVarDefine n x l) := by
+  unfold substVarDefine
+  split
+  · exact Args.cons (ih _) (Args.cons (VQ.refl _) (args_list ih _))
+  · exact Args.cons (ih _) Args.nil
+  · exact Args.nil
+
+theorem args_subst (ih : ∀ e, VQ orc f n x e (substVar n x e)) (fn : String) (l : List Expr) :
+    Args (VQ orc f n x) l (substVarArgs n x fn l) := by
+  unfold substVarArgs
+  split
+  · exact args_set ih l
+  · split
+    · exact args_define ih l
+    · exact args_list ih l
+
+theorem getVariable_withVariable_ne {c : Ctx} {k n : Str} (v : JV) (h : k ≠ n) :
+    (c.withVariable k v).getVariable n = c.getVariable n := by
+  simp [Ctx.withVariable, Ctx.getVariable, Ctx.lookup, h]
+
+theorem applyArg_two (ev : Ev) (a b : Expr) (rest : List Expr) (c : Ctx) :
+    applyArg ev (a :: b :: rest) c 2 = applyArg ev rest c 0 := by
+  simp [applyArg]
+
+/-- the body of a `set` after substitution: same value under the new binding -/
+theorem set_body (ih : ∀ e, VQ orc f n x e (substVar n x e)) (args : List Expr) (ctx : Ctx)
+    (hx : ctx.getVariable n = some x) (r : Option JV) (k : Str) (v : JV)
+    (h0 : applyArg (eval orc f) args ctx 0 = .ok r) (hk : strArg r = some k) :
+    applyArg (eval orc f) args (ctx.withVariable k v) 2 =
+      applyArg (eval orc f) (substVarSet n x args) (ctx.withVariable k v) 2 := by
+  unfold substVarSet
+  split
+  · next k0 v0 rest =>
+    split
+    · rfl
+    · next hne =>
+      rw [applyArg_two, applyArg_two]
+      have hk0 : k = k0 := by
+        cases f with
+        | zero => simp [applyArg, eval] at h0
+        | succ f =>
+          simp only [applyArg, List.getElem?_cons_zero, eval] at h0
+          cases h0
+          simpa [strArg] using hk.symm
+      subst hk0
+      exact applyArg_eq (args_list ih rest)
+        (fun e e' h => h _ ((getVariable_withVariable_ne v hne).trans hx)) 0
+  · rfl
+  · rfl
+  · rfl
+
+theorem hypEq_subst (ih : ∀ e, VQ orc f n x e (substVar n x e)) (fn : String) (args : List Expr) (ctx : Ctx)
+    (hx : ctx.getVariable n = some x) :
+    HypEq (eval orc f) fn args (substVarArgs n x fn args) ctx where
+  rel := (args_subst ih fn args).mono (fun e e' h c hv _ => h c (by
+    unfold Ctx.getVariable at hx ⊢; rw [hv]; exact hx))
+  setb := fun hf r k v h0 hk => by
+    subst hf
+    exact set_body ih args ctx hx r k v h0 hk
+  defb := fun hf => by
+    subst hf
+    refine ⟨?_, fun k d => ?_⟩
+    · show args[1]? = (substVarDefine n x args)[1]?
+      unfold substVarDefine
+      split <;> rfl
+    · show _ = applyArg (eval orc f) (substVarDefine n x args) (ctx.withDefinition k d) 2
+      exact applyArg_eq (c := ctx.withDefinition k d) (args_define ih args) (fun e e' h => h _ hx) 2
+
+end
+
+/-- **Substitution lemma.**  Where `:n` is bound to `x`, an expression and its substitution
+instance evaluate alike, with the same fuel. -/
+theorem subst_var (orc : Oracles) (n : Str) (x : JV) : ∀ (fuel : Nat) (e : Expr) (ctx : Ctx),
+    ctx.getVariable n = some x → eval orc fuel e ctx = eval orc fuel (substVar n x e) ctx := by
+  intro fuel
+  induction fuel with
+  | zero => intro e ctx _; rfl
+  | succ f ih =>
+    intro e ctx hx
+    cases e with
+    | var m =>
+      rw [substVar]
+      split
+      · next h => subst h; simp [eval, hx]
+      · rfl
+    | call fn args =>
+      rw [substVar_call]
+      simp only [eval]
+      exact callFn_congr (hypEq_subst (fun e c hc => ih e c hc) fn args ctx hx)
+    | _ => rfl
+
+
+/-! ### `set` is substitution -/
+
+/-- what `(set nameE v e)` computes -/
+theorem eval_set (orc : Oracles) (fuel : Nat) (nameE v e : Expr) (ctx : Ctx) :
+    eval orc (fuel + 1) (.call "set" [nameE, v, e]) ctx =
+      (do let rn ← eval orc fuel nameE ctx
+          let rv ← eval orc fuel v ctx
+          match strArg rn, rv with
+          | some n, some x => eval orc fuel e (ctx.withVariable n x)
+          | _, _ => .ok none) := by
+  simp only [eval]
+  rfl
+
+/-- **`(set "n" v e)` is substitution**: when `v` evaluates to `x`, the `set` evaluates like `e` with
+every free `:n` replaced by `x`.  (The binding stays in the context for what substitution cannot
+reach: macro bodies of the context, `(: …)` with a computed name, parsed selections.) -/
+theorem set_is_substitution (orc : Oracles) (fuel : Nat) (n : Str) (v e : Expr) (ctx : Ctx) (x : JV)
+    (hv : eval orc fuel v ctx = .ok (some x)) :
+    eval orc (fuel + 1) (.call "set" [.const (.str n), v, e]) ctx =
+      eval orc fuel (substVar n x e) (ctx.withVariable n x) := by
+  cases fuel with
+  | zero => cases hv
+  | succ f =>
+    rw [eval_set, hv]
+    simp only [eval, bind, Except.bind, strArg]
+    exact subst_var orc n x (f + 1) e _ (by simp [Ctx.withVariable, Ctx.getVariable, Ctx.lookup])
+
+/-- a `set` whose value is nothing is nothing (the body is not evaluated) -/
+theorem set_of_nothing (orc : Oracles) (fuel : Nat) (n : Str) (v e : Expr) (ctx : Ctx)
+    (hv : eval orc fuel v ctx = .ok none) :
+    eval orc (fuel + 1) (.call "set" [.const (.str n), v, e]) ctx = .ok none := by
+  cases fuel with
+  | zero => cases hv
+  | succ f =>
+    rw [eval_set, hv]
+    simp only [eval, bind, Except.bind, strArg]
+
+/-- the binding changes nothing else: input, enclosing inputs (`^`), selections, macros, input context -/
+theorem set_frame (ctx : Ctx) (n : Str) (x : JV) :
+    (ctx.withVariable n x).input = ctx.input ∧ (ctx.withVariable n x).parents = ctx.parents ∧
+    (ctx.withVariable n x).results = ctx.results ∧ (ctx.withVariable n x).defs = ctx.defs ∧
+    (ctx.withVariable n x).ictx = ctx.ictx ∧
+    (∀ k, k ≠ n → (ctx.withVariable n x).getVariable k = ctx.getVariable k) ∧
+    (ctx.withVariable n x).getVariable n = some x := by
+  refine ⟨rfl, rfl, rfl, rfl, rfl, fun k hk => ?_, ?_⟩
+  · exact getVariable_withVariable_ne x (Ne.symm hk)
+  · simp [Ctx.withVariable, Ctx.getVariable, Ctx.lookup]
+
+/-- extractors (`.k`, `#i`, `^…`), selections and input-context reads under a binding are those
+outside it -/
+theorem set_extract (orc : Oracles) (fuel : Nat) (ctx : Ctx) (n : Str) (x : JV) :
+    (∀ p steps, eval orc fuel (.extract p steps) (ctx.withVariable n x) = eval orc fuel (.extract p steps) ctx) ∧
+    (∀ t, eval orc fuel (.selected t) (ctx.withVariable n x) = eval orc fuel (.selected t) ctx) ∧
+    (∀ k, eval orc fuel (.ictx k) (ctx.withVariable n x) = eval orc fuel (.ictx k) ctx) := by
+  cases fuel with
+  | zero => exact ⟨fun _ _ => rfl, fun _ => rfl, fun _ => rfl⟩
+  | succ f => exact ⟨fun _ _ => rfl, fun _ => rfl, fun _ => rfl⟩
+
+/-! ### Substitution of a body for a macro -/
+
+mutual
+/-- replace the free occurrences of `@n` by the expression `m`.  `(define "n" d body)` with the
+literal name `n` binds `n` in `body`; under a `define` whose name is not a literal string the body is
+left alone; macro bodies `d` are left alone (dynamic scope). -/
+def substMacro (n : Str) (m : Expr) : Expr → Expr
+  | .macro k => if k = n then m else .macro k
+  | .call fn args =>
+    .call fn (if fn = "define" then substMacroDefine n m args else substMacroList n m args)
+  | e => e
+def substMacroDefine (n : Str) (m : Expr) : List Expr → List Expr
+  | .const (.str k) :: d :: rest =>
+    if k = n then .const (.str k) :: d :: rest
+    else .const (.str k) :: d :: substMacroList n m rest
+  | nameE :: d :: rest => substMacro n m nameE :: d :: rest
+  | [e] => [substMacro n m e]
+  | [] => []
+def substMacroList (n : Str) (m : Expr) : List Expr → List Expr
+  | [] => []
+  | e :: es => substMacro n m e :: substMacroList n m es
+end
+
+def substMacroArgs (n : Str) (m : Expr) (fn : String) (args : List Expr) : List Expr :=
+  if fn = "define" then substMacroDefine n m args else substMacroList n m args
+
+theorem substMacro_call (n : Str) (m : Expr) (fn : String) (args : List Expr) :
+    substMacro n m (.call fn args) = .call fn (substMacroArgs n m fn args) := by
+  rw [substMacro]; rfl
+
+section
+variable {n : Str} {m : Expr} {Q : Expr → Expr → Prop}
+
+theorem margs_list (hs : ∀ e, Q e (substMacro n m e)) (l : List Expr) :
+    Args Q l (substMacroList n m l) := by
+  induction l with
+  | nil => rw [substMacroList]; exact Args.nil
+  | cons e es ihl => rw [substMacroList]; exact Args.cons (hs e) ihl
+
+theorem margs_define (hs : ∀ e, Q e (substMacro n m e)) (hr : ∀ e, Q e e) (l : List Expr) :
+    Args Q l (substMacroDefine n m l) := by
+  unfold substMacroDefine
+  split
+  · split
+    · exact Args.refl hr _
+    · exact Args.cons (hr _) (Args.cons (hr _) (margs_list hs _))
+  · exact Args.cons (hs _) (Args.refl hr _)
+  · exact Args.cons (hs _) Args.nil
+  · exact Args.nil
+
+theorem margs_subst (hs : ∀ e, Q e (substMacro n m e)) (hr : ∀ e, Q e e) (fn : String) (l : List Expr) :
+    Args Q l (substMacroArgs n m fn l) := by
+  unfold substMacroArgs
+  split
+  · exact margs_define hs hr l
+  · exact margs_list hs l
+
+end
+
+theorem getDefinition_withDefinition_ne {c : Ctx} {k n : Str} (d : Expr) (h : k ≠ n) :
+    (c.withDefinition k d).getDefinition n = c.getDefinition n := by
+  simp [Ctx.withDefinition, Ctx.getDefinition, Ctx.lookup, h]
+
+/-- a literal name evaluates to itself -/
+theorem const_name {orc : Oracles} {f : Nat} {k0 k : Str} {rest : List Expr} {ctx : Ctx} {r : Option JV}
+    (h0 : applyArg (eval orc f) (.const (.str k0) :: rest) ctx 0 = .ok r) (hk : strArg r = some k) : k = k0 := by
+  cases f with
+  | zero => simp [applyArg, eval] at h0
+  | succ f =>
+    simp only [applyArg, List.getElem?_cons_zero, eval] at h0
+    cases h0
+    simpa [strArg] using hk.symm
+
+/-- `e` is below `e'` (evaluators `ev`, `ev'`) wherever `@n` is bound to `m` -/
+def MQ (ev ev' : Ev) (n : Str) (m : Expr) (e e' : Expr) : Prop :=
+  ∀ c : Ctx, c.getDefinition n = some m → Le (ev e c) (ev' e' c)
+
+/-- original → substituted -/
+theorem hyp_macro_fwd {orc : Oracles} {f : Nat} {n : Str} {m : Expr}
+    (ih : ∀ e, MQ (eval orc f) (eval orc f) n m e (substMacro n m e))
+    (fn : String) (args : List Expr) (ctx : Ctx) (hm : ctx.getDefinition n = some m) :
+    Hyp (eval orc f) (eval orc f) fn args (substMacroArgs n m fn args) ctx where
+  rel := (margs_subst ih (fun _ _ _ => Le.refl _) fn args).mono (fun e e' h c _ hd => h c (by
+    unfold Ctx.getDefinition at hm ⊢; rw [hd]; exact hm))
+  same := fun _ _ => Le.refl _
+  setb := fun hf r k v _ _ => by
+    subst hf
+    exact applyArg_rel (c := ctx.withVariable k v) (margs_subst ih (fun _ _ _ => Le.refl _) "set" args)
+      (fun e e' h => h _ hm) 2
+  defb := fun hf => by
+    subst hf
+    refine ⟨?_, fun r k d h0 hk hd => ?_⟩
+    · show args[1]? = (substMacroDefine n m args)[1]?
+      unfold substMacroDefine
+      split
+      · split <;> rfl
+      all_goals rfl
+    · clear hd
+      show Le _ (applyArg (eval orc f) (substMacroDefine n m args) (ctx.withDefinition k d) 2)
+      unfold substMacroDefine
+      split
+      · next k0 d0 rest =>
+        split
+        · exact Le.refl _
+        · next hne =>
+          rw [applyArg_two, applyArg_two]
+          have hk0 := const_name h0 hk
+          subst hk0
+          exact applyArg_rel (margs_list ih rest)
+            (fun e e' h => h _ ((getDefinition_withDefinition_ne d hne).trans hm)) 0
+      all_goals exact Le.refl _
+
+/-- **Macro substitution, forward.**  Where `@n` is bound to `m`, replacing the free `@n` of `e`
+by `m` keeps every outcome that is not `overflow` (substitution can only need less fuel). -/
+theorem subst_macro_le (orc : Oracles) (n : Str) (m : Expr) : ∀ (fuel : Nat) (e : Expr) (ctx : Ctx),
+    ctx.getDefinition n = some m → Le (eval orc fuel e ctx) (eval orc fuel (substMacro n m e) ctx) := by
+  intro fuel
+  induction fuel with
+  | zero => intro e ctx _; exact Or.inl rfl
+  | succ f ih =>
+    intro e ctx hm
+    cases e with
+    | «macro» k =>
+      rw [substMacro]
+      split
+      · next h =>
+        subst h
+        simp only [eval, hm]
+        exact eval_fuel_succ orc f m ctx
+      · exact Le.refl _
+    | call fn args =>
+      rw [substMacro_call]
+      simp only [eval]
+      exact callFn_le (hyp_macro_fwd (fun e c hc => ih e c hc) fn args ctx hm)
+    | _ => exact Le.refl _
+
+theorem subst_macro (orc : Oracles) (n : Str) (m : Expr) (fuel : Nat) (e : Expr) (ctx : Ctx) (r : Option JV)
+    (hm : ctx.getDefinition n = some m) (h : eval orc fuel e ctx = .ok r) :
+    eval orc fuel (substMacro n m e) ctx = .ok r :=
+  (subst_macro_le orc n m fuel e ctx hm).ok h
+
+theorem subst_macro_panic (orc : Oracles) (n : Str) (m : Expr) (fuel : Nat) (e : Expr) (ctx : Ctx) (s : String)
+    (hm : ctx.getDefinition n = some m) (h : eval orc fuel e ctx = .error (.panic s)) :
+    eval orc fuel (substMacro n m e) ctx = .error (.panic s) :=
+  (subst_macro_le orc n m fuel e ctx hm).panic h
+
+
+/-- the same arguments, one more unit of fuel -/
+theorem applyArg_fuel_succ (orc : Oracles) (f : Nat) (args : List Expr) (c : Ctx) (i : Nat) :
+    Le (applyArg (eval orc f) args c i) (applyArg (eval orc (f + 1)) args c i) :=
+  applyArg_rel (Args.refl (Q := Eq) (fun _ => rfl) args) (fun e _ he => he ▸ eval_fuel_succ orc f e c) i
+
+/-- substituted → original, with one more unit of fuel -/
+theorem hyp_macro_bwd {orc : Oracles} {f : Nat} {n : Str} {m : Expr}
+    (ih : ∀ e, MQ (eval orc f) (eval orc (f + 1)) n m (substMacro n m e) e)
+    (fn : String) (args : List Expr) (ctx : Ctx) (hm : ctx.getDefinition n = some m) :
+    Hyp (eval orc f) (eval orc (f + 1)) fn (substMacroArgs n m fn args) args ctx := by
+  have hr : ∀ e, MQ (eval orc f) (eval orc (f + 1)) n m e e := fun e c _ => eval_fuel_succ orc f e c
+  have hargs : ∀ fn, Args (MQ (eval orc f) (eval orc (f + 1)) n m) (substMacroArgs n m fn args) args :=
+    fun fn => (margs_subst (Q := fun a b => MQ (eval orc f) (eval orc (f + 1)) n m b a) ih hr fn args).flip
+  refine ⟨?_, ?_, ?_, ?_⟩
+  · exact (hargs fn).mono (fun e e' h c _ hd => h c (by
+      unfold Ctx.getDefinition at hm ⊢; rw [hd]; exact hm))
+  · exact fun e c => eval_fuel_succ orc f e c
+  · intro hf r k v _ _
+    exact applyArg_rel (c := ctx.withVariable k v) (hargs fn) (fun e e' h => h _ hm) 2
+  · intro hf
+    subst hf
+    refine ⟨?_, fun r k d h0 hk hd => ?_⟩
+    · show (substMacroDefine n m args)[1]? = args[1]?
+      unfold substMacroDefine
+      split
+      · split <;> rfl
+      all_goals rfl
+    · clear hd
+      have h0' : applyArg (eval orc f) (substMacroDefine n m args) ctx 0 = .ok r := h0
+      clear h0
+      show Le (applyArg (eval orc f) (substMacroDefine n m args) (ctx.withDefinition k d) 2) _
+      unfold substMacroDefine at h0' ⊢
+      split
+      · next k0 d0 rest =>
+        split
+        · exact applyArg_fuel_succ orc f _ _ 2
+        · next hne =>
+          rw [applyArg_two, applyArg_two]
+          simp only [hne, if_false] at h0'
+          have hk0 := const_name h0' hk
+          subst hk0
+          exact applyArg_rel
+            (margs_list (Q := fun a b => MQ (eval orc f) (eval orc (f + 1)) n m b a) ih rest).flip
+            (fun e e' h => h _ ((getDefinition_withDefinition_ne d hne).trans hm)) 0
+      · rw [applyArg_two, applyArg_two]; exact applyArg_fuel_succ orc f _ _ 0
+      all_goals exact applyArg_fuel_succ orc f _ _ 2
+
+/-- **Macro substitution, backward.**  What the substituted expression computes, the original
+computes with one more unit of fuel (the `@n` steps). -/
+theorem subst_macro_conv_le (orc : Oracles) (n : Str) (m : Expr) : ∀ (fuel : Nat) (e : Expr) (ctx : Ctx),
+    ctx.getDefinition n = some m →
+      Le (eval orc fuel (substMacro n m e) ctx) (eval orc (fuel + 1) e ctx) := by
+  intro fuel
+  induction fuel with
+  | zero => intro e ctx _; exact Or.inl rfl
+  | succ f ih =>
+    intro e ctx hm
+    cases e with
+    | «macro» k =>
+      rw [substMacro]
+      split
+      · next h =>
+        subst h
+        rw [show eval orc (f + 1 + 1) (.macro k) ctx = eval orc (f + 1) m ctx by simp only [eval, hm]]
+        exact Le.refl _
+      · exact eval_fuel_succ orc _ _ _
+    | call fn args =>
+      rw [substMacro_call]
+      simp only [eval]
+      exact callFn_le (hyp_macro_bwd (fun e c hc => ih e c hc) fn args ctx hm)
+    | _ => exact eval_fuel_succ orc _ _ _
+
+theorem subst_macro_conv (orc : Oracles) (n : Str) (m : Expr) (fuel : Nat) (e : Expr) (ctx : Ctx) (r : Option JV)
+    (hm : ctx.getDefinition n = some m) (h : eval orc fuel (substMacro n m e) ctx = .ok r) :
+    eval orc (fuel + 1) e ctx = .ok r :=
+  (subst_macro_conv_le orc n m fuel e ctx hm).ok h
+
+/-! ### `define` is substitution -/
+
+/-- what `(define nameE d e)` computes: the *expression* `d` is bound, unevaluated -/
+theorem eval_define (orc : Oracles) (fuel : Nat) (nameE d e : Expr) (ctx : Ctx) :
+    eval orc (fuel + 1) (.call "define" [nameE, d, e]) ctx =
+      (do let rn ← eval orc fuel nameE ctx
+          match strArg rn with
+          | some n => eval orc fuel e (ctx.withDefinition n d)
+          | none => .ok none) := by
+  simp only [eval]
+  show (do let rn ← eval orc fuel nameE ctx
+           match strArg rn, some d with
+           | some n, some d => eval orc fuel e (ctx.withDefinition n d)
+           | _, _ => .ok none) = _
+  cases eval orc fuel nameE ctx with
+  | error a => rfl
+  | ok rn =>
+    simp only [bind, Except.bind]
+    cases strArg rn <;> rfl
+
+theorem eval_define_lit (orc : Oracles) (fuel : Nat) (n : Str) (m e : Expr) (ctx : Ctx) :
+    eval orc (fuel + 2) (.call "define" [.const (.str n), m, e]) ctx =
+      eval orc (fuel + 1) e (ctx.withDefinition n m) := by
+  rw [eval_define]
+  simp only [eval, bind, Except.bind, strArg]
+
+/-- **`(define "n" m e)` is substitution, forward**: a value of the `define` is a value of `e` with every
+free `@n` replaced by `m` (evaluated with the binding still in place, for what substitution cannot
+reach), with one unit of fuel less. -/
+theorem define_is_substitution (orc : Oracles) (fuel : Nat) (n : Str) (m e : Expr) (ctx : Ctx) (r : Option JV)
+    (h : eval orc (fuel + 2) (.call "define" [.const (.str n), m, e]) ctx = .ok r) :
+    eval orc (fuel + 1) (substMacro n m e) (ctx.withDefinition n m) = .ok r := by
+  rw [eval_define_lit] at h
+  exact subst_macro orc n m _ e _ r (by simp [Ctx.withDefinition, Ctx.getDefinition, Ctx.lookup]) h
+
+/-- … and backward: a value of the substituted body is the value of the `define` (one more unit of fuel) -/
+theorem define_is_substitution_conv (orc : Oracles) (fuel : Nat) (n : Str) (m e : Expr) (ctx : Ctx) (r : Option JV)
+    (h : eval orc fuel (substMacro n m e) (ctx.withDefinition n m) = .ok r) :
+    eval orc (fuel + 2) (.call "define" [.const (.str n), m, e]) ctx = .ok r := by
+  rw [eval_define_lit]
+  exact subst_macro_conv orc n m _ e _ r (by simp [Ctx.withDefinition, Ctx.getDefinition, Ctx.lookup]) h
+
+/-- the macro binding changes nothing else -/
+theorem define_frame (ctx : Ctx) (n : Str) (m : Expr) :
+    (ctx.withDefinition n m).input = ctx.input ∧ (ctx.withDefinition n m).parents = ctx.parents ∧
+    (ctx.withDefinition n m).results = ctx.results ∧ (ctx.withDefinition n m).vars = ctx.vars ∧
+    (ctx.withDefinition n m).ictx = ctx.ictx ∧
+    (∀ k, k ≠ n → (ctx.withDefinition n m).getDefinition k = ctx.getDefinition k) ∧
+    (ctx.withDefinition n m).getDefinition n = some m := by
+  refine ⟨rfl, rfl, rfl, rfl, rfl, fun k hk => ?_, ?_⟩
+  · exact getDefinition_withDefinition_ne m (Ne.symm hk)
+  · simp [Ctx.withDefinition, Ctx.getDefinition, Ctx.lookup]
+
+/-- `@n` costs one unit of fuel, then is the bound body in the *current* context -/
+theorem macro_is_body (orc : Oracles) (fuel : Nat) (ctx : Ctx) (n : Str) (m : Expr)
+    (h : ctx.getDefinition n = some m) :
+    eval orc (fuel + 1) (.macro n) ctx = eval orc fuel m ctx := by simp only [eval, h]
+
+/-! ### Examples, and why substitution stops where it does -/
+
+namespace Ex
+def str (x : String) : Expr := .const (.str x.toList)
+def num (k : Nat) : JV := .num (.pos k)
+def lit (k : Nat) : Expr := .const (num k)
+def v (x : String) : Expr := .var x.toList
+def mac (x : String) : Expr := .macro x.toList
+
+/-- `(set "y" 2 (+ :x :y))` with `x := 1` is `(set "y" 2 (+ 1 :y))` -/
+example : substVar "x".toList (num 1) (.call "set" [str "y", lit 2, .call "+" [v "x", v "y"]])
+    = .call "set" [str "y", lit 2, .call "+" [lit 1, v "y"]] := rfl
+
+/-- shadowing: the body of `(set "x" 2 :x)` is not touched, its value argument is -/
+example : substVar "x".toList (num 1) (.call "set" [str "x", v "x", v "x"])
+    = .call "set" [str "x", lit 1, v "x"] := rfl
+
+/-- under `map` (input changes) substitution goes on -/
+example : substVar "x".toList (num 1) (.call "map" [.extract 0 [], .call "+" [v "x", .extract 1 []]])
+    = .call "map" [.extract 0 [], .call "+" [lit 1, .extract 1 []]] := rfl
+
+/-- hypotheses of `subst_var` / `set_is_substitution` are satisfiable, and the two sides are real values -/
+example : eval {} 5 (.call "set" [str "x", str "a", .call "set" [str "y", str "b", .call "concat" [v "x", v "y"]]]) {}
+    = .ok (some (.str "ab".toList)) := rfl
+example : eval {} 4 (substVar "x".toList (.str "a".toList) (.call "set" [str "y", str "b", .call "concat" [v "x", v "y"]]))
+    (({} : Ctx).withVariable "x".toList (.str "a".toList)) = .ok (some (.str "ab".toList)) := rfl
+example : (({} : Ctx).withVariable "x".toList (num 1)).getVariable "x".toList = some (num 1) := rfl
+
+/-- `(define "m" :x …)`: macro bodies are evaluated where they are *used* -/
+def dyn : Expr := .call "set" [str "x", lit 1,
+  .call "define" [str "m", v "x", .call "set" [str "x", lit 2, mac "m"]]]
+/-- the same with `:x` replaced by `1` inside the macro body -/
+def dynSubst : Expr := .call "set" [str "x", lit 1,
+  .call "define" [str "m", lit 1, .call "set" [str "x", lit 2, mac "m"]]]
+
+/-- **Counter-example** to substituting into the macro body of a `define`: macros are dynamically
+scoped, `@m` reads the `:x` of its use site. -/
+theorem define_body_dynamic :
+    eval {} 10 dyn {} = .ok (some (num 2)) ∧ eval {} 10 dynSubst {} = .ok (some (num 1)) := ⟨rfl, rfl⟩
+
+/-- the same for macros inside macro bodies: `(define "n" 1 (define "k" @n (define "n" 2 @k)))` is `2` -/
+def dynM : Expr := .call "define" [str "n", lit 1,
+  .call "define" [str "k", mac "n", .call "define" [str "n", lit 2, mac "k"]]]
+def dynMSubst : Expr := .call "define" [str "n", lit 1,
+  .call "define" [str "k", lit 1, .call "define" [str "n", lit 2, mac "k"]]]
+theorem define_body_dynamic_macro :
+    eval {} 10 dynM {} = .ok (some (num 2)) ∧ eval {} 10 dynMSubst {} = .ok (some (num 1)) := ⟨rfl, rfl⟩
+
+/-- **Counter-example** to substituting under a `set` with a computed name:
+`(set (concat "x") 2 :x)` rebinds `x`. -/
+def dynName : Expr := .call "set" [.call "concat" [str "x"], lit 2, v "x"]
+theorem computed_name_rebinds :
+    eval {} 10 dynName (({} : Ctx).withVariable "x".toList (num 1)) = .ok (some (num 2)) ∧
+    substVar "x".toList (num 1) dynName = dynName := ⟨rfl, rfl⟩
+
+/-- macro substitution: `(define "k" 7 (+ @m @k))` with `m := :x` -/
+example : substMacro "m".toList (v "x") (.call "define" [str "k", lit 7, .call "+" [mac "m", mac "k"]])
+    = .call "define" [str "k", lit 7, .call "+" [v "x", mac "k"]] := rfl
+example : substMacro "m".toList (v "x") (.call "define" [str "m", mac "m", mac "m"])
+    = .call "define" [str "m", mac "m", mac "m"] := rfl
+example : eval {} 6 (.call "define" [str "m", .call "concat" [str "a", str "b"], .call "concat" [mac "m", mac "m"]]) {}
+    = .ok (some (.str "abab".toList)) := rfl
+end Ex
+
+open Jawk.Pipe
+
+/-! ### `--set` presets -/
+
+/-- the context downstream of a `--set` stage -/
+def presetCtx (vars : List (Str × JV)) (defs : List (Str × Expr)) (ctx : Ctx) : Ctx :=
+  (ctx.withVariables vars).withDefinitions defs
+
+/-- downstream of `--set`, `:n` / `@n` are exactly the preset table; everything else is untouched -/
+theorem presetCtx_frame (vars : List (Str × JV)) (defs : List (Str × Expr)) (ctx : Ctx) :
+    (∀ n, (presetCtx vars defs ctx).getVariable n = Ctx.lookup vars n) ∧
+    (∀ n, (presetCtx vars defs ctx).getDefinition n = Ctx.lookup defs n) ∧
+    (presetCtx vars defs ctx).input = ctx.input ∧ (presetCtx vars defs ctx).parents = ctx.parents ∧
+    (presetCtx vars defs ctx).results = ctx.results ∧ (presetCtx vars defs ctx).ictx = ctx.ictx :=
+  ⟨fun _ => rfl, fun _ => rfl, rfl, rfl, rfl, rfl⟩
+
+/-- the `--set` stage (model of the `Process` chain): process the bound context with the rest -/
+theorem preset_stage (orc : Oracles) (sink : SinkCfg) (k : Nat) (vars : List (Str × JV)) (defs : List (Str × Expr))
+    (cs : List StageCfg) (st : StageSt) (sts : List StageSt) (w : Writer) (ctx : Ctx) :
+    process orc sink k (.preset vars defs :: cs) (st :: sts) w ctx =
+      (do let (p, d) ← process orc sink k cs sts w (presetCtx vars defs ctx)
+          pure (⟨st :: p.sts, p.w⟩, d)) := by
+  simp only [process]
+  rfl
+
+/-- the `--set` stage, effect-free machine -/
+theorem preset_stageP (ev : Expr → Ctx → Option JV) (vars : List (Str × JV)) (defs : List (Str × Expr))
+    (cs : List StageCfg) (st : StageSt) (sts : List StageSt) (ctx : Ctx) :
+    processP ev (.preset vars defs :: cs) (st :: sts) ctx =
+      (st :: (processP ev cs sts (presetCtx vars defs ctx)).1,
+        (processP ev cs sts (presetCtx vars defs ctx)).2.1, (processP ev cs sts (presetCtx vars defs ctx)).2.2) := by
+  simp only [processP]
+  rfl
+
+/-- the total evaluator respects substitution -/
+theorem evalT_subst_var (orc : Oracles) (n : Str) (x : JV) (e : Expr) (ctx : Ctx)
+    (h : ctx.getVariable n = some x) : evalT orc (substVar n x e) ctx = evalT orc e ctx := by
+  unfold evalT
+  rw [← subst_var orc n x evalFuel e ctx h]
+
+theorem evalE_subst_var (orc : Oracles) (w : Writer) (n : Str) (x : JV) (e : Expr) (ctx : Ctx)
+    (h : ctx.getVariable n = some x) : evalE orc w (substVar n x e) ctx = evalE orc w e ctx := by
+  unfold evalE
+  rw [← subst_var orc n x evalFuel e ctx h]
+
+/-- substitute in the expression of a stage -/
+def substStage (n : Str) (x : JV) : StageCfg → StageCfg
+  | .split e => .split (substVar n x e)
+  | .filter e => .filter (substVar n x e)
+  | .select t e => .select t (substVar n x e)
+  | .sort k d => .sort (substVar n x k) d
+  | .group e => .group (substVar n x e)
+  | c => c
+
+def isPreset : StageCfg → Bool
+  | .preset _ _ => true
+  | _ => false
+
+theorem feedBrk_congr {next next' : List StageSt → Ctx → Pipe.Step} (P : Ctx → Prop)
+    (h : ∀ sts c, P c → next sts c = next' sts c) :
+    ∀ (rows : List Ctx) (sts : List StageSt), (∀ c ∈ rows, P c) → feedBrk next sts rows = feedBrk next' sts rows := by
+  intro rows
+  induction rows with
+  | nil => intro sts _; rfl
+  | cons c cs ih =>
+    intro sts hp
+    simp only [feedBrk]
+    rw [← h sts c (hp c (by simp))]
+    rcases next sts c with ⟨s1, o1, d⟩
+    cases d with
+    | brk => rfl
+    | cont =>
+      simp only
+      rw [ih s1 (fun c hc => hp c (by simp [hc]))]
+
+/-- **`--set n=x` is substitution in every downstream stage** (up to the next `--set` stage):
+a row in which `:n` is `x` is processed alike by the chain and by the chain with `x` substituted
+for the free `:n` of every stage expression. -/
+theorem processP_subst_var (orc : Oracles) (n : Str) (x : JV) :
+    ∀ (cs : List StageCfg) (sts : List StageSt) (ctx : Ctx), (∀ c ∈ cs, isPreset c = false) →
+      ctx.getVariable n = some x →
+      processP (evalT orc) (cs.map (substStage n x)) sts ctx = processP (evalT orc) cs sts ctx := by
+  intro cs
+  induction cs with
+  | nil => intro sts ctx _ _; rfl
+  | cons c cs ih =>
+    intro sts ctx hnp hx
+    have hnp' : ∀ c ∈ cs, isPreset c = false := fun c hc => hnp c (by simp [hc])
+    cases sts with
+    | nil => rfl
+    | cons st sts =>
+      have hin : ∀ v : JV, (ctx.withInput v).getVariable n = some x := fun _ => hx
+      cases c with
+      | preset vars defs => exact absurd (hnp (.preset vars defs) (by simp)) (by simp [isPreset])
+      | split e =>
+        simp only [List.map_cons, substStage, processP, evalT_subst_var orc n x e ctx hx]
+        split
+        · next l _ =>
+          rw [feedBrk_congr (next := processP (evalT orc) (cs.map (substStage n x))) (next' := processP (evalT orc) cs)
+            (fun c => c.getVariable n = some x) (fun sts c hc => ih sts c hnp' hc)]
+          intro c hc
+          simp only [List.mem_map] at hc
+          obtain ⟨v, _, rfl⟩ := hc
+          exact hin v
+        · rfl
+      | filter e =>
+        simp only [List.map_cons, substStage, processP, evalT_subst_var orc n x e ctx hx]
+        split
+        · rw [ih sts ctx hnp' hx]
+        · rfl
+      | select t e =>
+        simp only [List.map_cons, substStage, processP, evalT_subst_var orc n x e ctx hx]
+        rw [ih sts _ hnp' (show (ctx.withResult t (evalT orc e ctx)).getVariable n = some x from hx)]
+      | unique =>
+        simp only [List.map_cons, substStage, processP]
+        split
+        · split
+          · rfl
+          · rw [ih sts ctx hnp' hx]
+        · rfl
+      | sort k d =>
+        simp only [List.map_cons, substStage, processP, evalT_subst_var orc n x k ctx hx]
+      | limit sk tk =>
+        simp only [List.map_cons, substStage, processP]
+        split
+        · split
+          · rfl
+          · split
+            · split
+              · rfl
+              · rw [ih sts ctx hnp' hx]
+            · rw [ih sts ctx hnp' hx]
+        · rfl
+      | group e =>
+        simp only [List.map_cons, substStage, processP, evalT_subst_var orc n x e ctx hx]
+      | merge => rfl
+
+/-- **`--set n=x` presets are substitution**: with `n ↦ x` in the preset table, the chain after the
+`--set` stage may have `x` substituted for `:n` in every stage expression; in particular a downstream
+`--select` expression sees `getVariable n = lookup vars n`. -/
+theorem presets_are_substitution (orc : Oracles) (vars : List (Str × JV)) (defs : List (Str × Expr))
+    (cs : List StageCfg) (st : StageSt) (sts : List StageSt) (ctx : Ctx) (n : Str) (x : JV)
+    (hn : Ctx.lookup vars n = some x) (hnp : ∀ c ∈ cs, isPreset c = false) :
+    processP (evalT orc) (.preset vars defs :: cs.map (substStage n x)) (st :: sts) ctx =
+      processP (evalT orc) (.preset vars defs :: cs) (st :: sts) ctx := by
+  rw [preset_stageP, preset_stageP, processP_subst_var orc n x cs sts (presetCtx vars defs ctx) hnp hn]
+
+/-- the effectful chain: a `--select` just after `--set` -/
+theorem preset_select_subst (orc : Oracles) (sink : SinkCfg) (k : Nat) (vars : List (Str × JV))
+    (defs : List (Str × Expr)) (t : Str) (e : Expr) (cs : List StageCfg) (sts : List StageSt) (w : Writer)
+    (ctx : Ctx) (n : Str) (x : JV) (hn : Ctx.lookup vars n = some x) :
+    process orc sink k (.preset vars defs :: .select t (substVar n x e) :: cs) sts w ctx =
+      process orc sink k (.preset vars defs :: .select t e :: cs) sts w ctx := by
+  cases sts with
+  | nil => rfl
+  | cons st sts =>
+    rw [preset_stage, preset_stage]
+    cases sts with
+    | nil => rfl
+    | cons st2 sts =>
+      simp only [process, evalE_subst_var orc w n x e (presetCtx vars defs ctx) hn]
+
+/-- `--set @n=m`: a downstream expression that does not run out of depth fuel may have `m`
+substituted for its free `@n` -/
+theorem evalT_subst_macro (orc : Oracles) (n : Str) (m : Expr) (e : Expr) (ctx : Ctx)
+    (h : ctx.getDefinition n = some m) (hov : eval orc evalFuel e ctx ≠ .error .overflow) :
+    evalT orc (substMacro n m e) ctx = evalT orc e ctx := by
+  unfold evalT
+  rw [(subst_macro_le orc n m evalFuel e ctx h).eq_of_ne hov]
+
+/-! ### Every `--select` sees the same input, parents, variables and macros -/
+
+/-- the context after a run of `--select` stages: only `results` grows -/
+def selCtx (ev : Expr → Ctx → Option JV) : List (Str × Expr) → Ctx → Ctx
+  | [], c => c
+  | (t, e) :: rest, c => selCtx ev rest (c.withResult t (ev e c))
+
+def selStages (sels : List (Str × Expr)) : List StageCfg := sels.map (fun p => .select p.1 p.2)
+
+theorem selCtx_append (ev : Expr → Ctx → Option JV) (a b : List (Str × Expr)) (c : Ctx) :
+    selCtx ev (a ++ b) c = selCtx ev b (selCtx ev a c) := by
+  induction a generalizing c with
+  | nil => rfl
+  | cons p a ih => obtain ⟨t, e⟩ := p; simp only [List.cons_append, selCtx, ih]
+
+/-- the frame of a run of selects -/
+theorem selCtx_frame (ev : Expr → Ctx → Option JV) (sels : List (Str × Expr)) (c : Ctx) :
+    (selCtx ev sels c).input = c.input ∧ (selCtx ev sels c).parents = c.parents ∧
+    (selCtx ev sels c).vars = c.vars ∧ (selCtx ev sels c).defs = c.defs ∧
+    (selCtx ev sels c).ictx = c.ictx ∧
+    ∃ rs, (selCtx ev sels c).results = c.results ++ rs ∧ rs.map (·.1) = sels.map (·.1) := by
+  induction sels generalizing c with
+  | nil => exact ⟨rfl, rfl, rfl, rfl, rfl, [], by simp [selCtx], rfl⟩
+  | cons p sels ih =>
+    obtain ⟨t, e⟩ := p
+    obtain ⟨h1, h2, h3, h4, h5, rs, h6, h7⟩ := ih (c.withResult t (ev e c))
+    refine ⟨h1, h2, h3, h4, h5, (t, ev e c) :: rs, ?_, ?_⟩
+    · show (selCtx ev sels (c.withResult t (ev e c))).results = _
+      rw [h6]
+      simp [Ctx.withResult]
+    · simp [h7]
+
+/-- **every `--select` sees the same context**: the `i`-th select expression is evaluated in a context
+whose input, parents (`^`), variables, macros and input context are those of the first; its value is
+appended to the results under its title. -/
+theorem selects_see_same_ctx (ev : Expr → Ctx → Option JV) (sels : List (Str × Expr)) (c : Ctx) (i : Nat)
+    (t : Str) (e : Expr) (hi : sels[i]? = some (t, e)) :
+    let ci := selCtx ev (sels.take i) c
+    ci.input = c.input ∧ ci.parents = c.parents ∧ ci.vars = c.vars ∧ ci.defs = c.defs ∧ ci.ictx = c.ictx ∧
+    selCtx ev (sels.take (i + 1)) c = ci.withResult t (ev e ci) ∧
+    (selCtx ev sels c).results[c.results.length + i]? = some (t, ev e ci) := by
+  intro ci
+  obtain ⟨h1, h2, h3, h4, h5, rs, h6, h7⟩ := selCtx_frame ev (sels.take i) c
+  have hlt : i < sels.length := by
+    rcases Nat.lt_or_ge i sels.length with h | h
+    · exact h
+    · rw [List.getElem?_eq_none h] at hi; cases hi
+  have htake : sels.take (i + 1) = sels.take i ++ [(t, e)] := by
+    rw [List.take_add_one, hi]; rfl
+  have hstep : selCtx ev (sels.take (i + 1)) c = ci.withResult t (ev e ci) := by
+    rw [htake, selCtx_append]; rfl
+  refine ⟨h1, h2, h3, h4, h5, hstep, ?_⟩
+  have hsplit : sels = sels.take (i + 1) ++ sels.drop (i + 1) := (List.take_append_drop _ _).symm
+  rw [hsplit, selCtx_append, hstep]
+  obtain ⟨_, _, _, _, _, rs', h6', _⟩ := selCtx_frame ev (sels.drop (i + 1)) (ci.withResult t (ev e ci))
+  rw [h6']
+  have hlen : rs.length = i := by
+    have := congrArg List.length h7
+    simpa [List.length_take, Nat.min_eq_left (Nat.le_of_lt hlt)] using this
+  show ((ci.results ++ [(t, ev e ci)]) ++ rs')[c.results.length + i]? = _
+  rw [h6]
+  simp [hlen]
+
+/-- extractors only look at the input and its parents -/
+theorem eval_extract_congr (orc : Oracles) (fuel : Nat) (p : Nat) (steps : List Jawk.Step) (c c' : Ctx)
+    (hi : c.input = c'.input) (hp : c.parents = c'.parents) :
+    eval orc fuel (.extract p steps) c = eval orc fuel (.extract p steps) c' := by
+  cases fuel with
+  | zero => rfl
+  | succ f => simp only [eval, Ctx.parentInput, hi, hp]
+
+/-- a `^…` extractor in the `i`-th `--select` reads what it reads in the first -/
+theorem select_extract_same (orc : Oracles) (ev : Expr → Ctx → Option JV) (sels : List (Str × Expr)) (c : Ctx)
+    (i : Nat) (fuel p : Nat) (steps : List Jawk.Step) :
+    eval orc fuel (.extract p steps) (selCtx ev (sels.take i) c) = eval orc fuel (.extract p steps) c := by
+  obtain ⟨h1, h2, _⟩ := selCtx_frame ev (sels.take i) c
+  exact eval_extract_congr orc fuel p steps _ _ h1 h2
+
+/-- a chain of `k` selects in the effect-free machine: the rest of the chain gets `selCtx` -/
+theorem processP_selects (ev : Expr → Ctx → Option JV) (sels : List (Str × Expr)) (cs : List StageCfg) :
+    ∀ (sts1 sts : List StageSt) (ctx : Ctx), sts1.length = sels.length →
+      processP ev (selStages sels ++ cs) (sts1 ++ sts) ctx =
+        (sts1 ++ (processP ev cs sts (selCtx ev sels ctx)).1,
+          (processP ev cs sts (selCtx ev sels ctx)).2.1, (processP ev cs sts (selCtx ev sels ctx)).2.2) := by
+  induction sels with
+  | nil =>
+    intro sts1 sts ctx hl
+    have : sts1 = [] := List.eq_nil_of_length_eq_zero hl
+    subst this
+    rfl
+  | cons p sels ih =>
+    intro sts1 sts ctx hl
+    obtain ⟨t, e⟩ := p
+    cases sts1 with
+    | nil => cases hl
+    | cons st sts1 =>
+      simp only [selStages, List.map_cons, List.cons_append, processP, selCtx]
+      have := ih sts1 sts (ctx.withResult t (ev e ctx)) (by simpa using hl)
+      simp only [selStages] at this
+      rw [this]
+
+/-- every select of the run evaluates without abort -/
+def SelOk (orc : Oracles) : List (Str × Expr) → Ctx → Prop
+  | [], _ => True
+  | (t, e) :: rest, c => ∃ r, eval orc evalFuel e c = .ok r ∧ SelOk orc rest (c.withResult t r)
+
+/-- a chain of `k` selects in the model of the `Process` chain -/
+theorem process_selects (orc : Oracles) (sink : SinkCfg) (k : Nat) (sels : List (Str × Expr))
+    (cs : List StageCfg) :
+    ∀ (sts1 sts : List StageSt) (w : Writer) (ctx : Ctx), sts1.length = sels.length → SelOk orc sels ctx →
+      process orc sink k (selStages sels ++ cs) (sts1 ++ sts) w ctx =
+        (do let (p, d) ← process orc sink k cs sts w (selCtx (evalT orc) sels ctx)
+            pure (⟨sts1 ++ p.sts, p.w⟩, d)) := by
+  induction sels with
+  | nil =>
+    intro sts1 sts w ctx hl _
+    have : sts1 = [] := List.eq_nil_of_length_eq_zero hl
+    subst this
+    simp only [selStages, List.map_nil, List.nil_append, selCtx]
+    cases process orc sink k cs sts w ctx with
+    | error e => rfl
+    | ok pd => rfl
+  | cons p sels ih =>
+    intro sts1 sts w ctx hl hok
+    obtain ⟨t, e⟩ := p
+    obtain ⟨r, hr, hok'⟩ := hok
+    cases sts1 with
+    | nil => cases hl
+    | cons st sts1 =>
+      have hT : evalT orc e ctx = r := by unfold evalT; rw [hr]
+      simp only [selStages, List.map_cons, List.cons_append, process, selCtx, evalE, liftR, hr, hT]
+      have := ih sts1 sts w (ctx.withResult t r) (by simpa using hl) hok'
+      simp only [selStages] at this
+      simp only [bind, Except.bind, pure, Except.pure] at this ⊢
+      rw [this]
+      cases process orc sink k cs sts w (selCtx (evalT orc) sels (ctx.withResult t r)) with
+      | error e => rfl
+      | ok pd => rfl
+
+/-! ### Pipes of any length -/
+
+/-- `(| e₁ … eₖ)` starts from the current input pushed once more on the parents -/
+theorem pipe_is_go (ev : Ev) (es : List Expr) (ctx : Ctx) :
+    callBasic ev "|" es ctx = some (callBasic.go ev (ctx.withInput ctx.input) es) := rfl
+
+theorem pipeGo_nil (ev : Ev) (c : Ctx) : callBasic.go ev c [] = .ok (some c.input) := rfl
+
+/-- one stage: the value of `e` becomes the input of the rest, the previous input its parent -/
+theorem pipeGo_cons (ev : Ev) (c : Ctx) (e : Expr) (es : List Expr) :
+    callBasic.go ev c (e :: es) =
+      (match ev e c with
+       | .ok (some v) => callBasic.go ev (c.withInput v) es
+       | .ok none => .ok none
+       | .error a => .error a) := by
+  rw [callBasic.go]
+  cases ev e c with
+  | error a => rfl
+  | ok r => cases r <;> rfl
+
+/-- the context of stage `i+1` of a pipe whose first `i` stages produced `vs` -/
+def pipeCtx (c : Ctx) (vs : List JV) : Ctx := vs.foldl Ctx.withInput c
+
+theorem pipeCtx_snoc (c : Ctx) (vs : List JV) (v : JV) : pipeCtx c (vs ++ [v]) = (pipeCtx c vs).withInput v := by
+  simp [pipeCtx]
+
+/-- input and parents inside a pipe: the values so far, newest first, then the outer chain;
+bindings untouched -/
+theorem pipeCtx_frame (c : Ctx) (vs : List JV) :
+    (pipeCtx c vs).input :: (pipeCtx c vs).parents = vs.reverse ++ c.input :: c.parents ∧
+    (pipeCtx c vs).vars = c.vars ∧ (pipeCtx c vs).defs = c.defs ∧ (pipeCtx c vs).ictx = c.ictx := by
+  induction vs generalizing c with
+  | nil => exact ⟨rfl, rfl, rfl, rfl⟩
+  | cons v vs ih =>
+    obtain ⟨h1, h2, h3, h4⟩ := ih (c.withInput v)
+    refine ⟨?_, h2, h3, h4⟩
+    show (pipeCtx (c.withInput v) vs).input :: (pipeCtx (c.withInput v) vs).parents = _
+    rw [h1]
+    simp [Ctx.withInput]
+
+/-- the stages `es` produce the values `vs`, each evaluated with its predecessor's value as input -/
+def PipeRun (ev : Ev) : Ctx → List Expr → List JV → Prop
+  | _, [], [] => True
+  | c, e :: es, v :: vs => ev e c = .ok (some v) ∧ PipeRun ev (c.withInput v) es vs
+  | _, _, _ => False
+
+theorem pipeGo_run (ev : Ev) : ∀ (es : List Expr) (vs : List JV) (c : Ctx), PipeRun ev c es vs →
+    callBasic.go ev c es = .ok (some (pipeCtx c vs).input) := by
+  intro es
+  induction es with
+  | nil =>
+    intro vs c h
+    cases vs with
+    | nil => rfl
+    | cons _ _ => exact h.elim
+  | cons e es ih =>
+    intro vs c h
+    cases vs with
+    | nil => exact h.elim
+    | cons v vs =>
+      obtain ⟨h1, h2⟩ := h
+      rw [pipeGo_cons, h1]
+      exact ih vs _ h2
+
+/-- **`(| e₁ … eₖ)` threads**: if stage `i` yields `vᵢ` when evaluated with input `vᵢ₋₁` (parents: the
+earlier values, then the outer input), the pipe yields the last value. -/
+theorem pipe_threads_n (ev : Ev) (es : List Expr) (vs : List JV) (ctx : Ctx)
+    (h : PipeRun ev (ctx.withInput ctx.input) es vs) :
+    callBasic ev "|" es ctx = some (.ok (some (pipeCtx (ctx.withInput ctx.input) vs).input)) := by
+  rw [pipe_is_go, pipeGo_run ev es vs _ h]
+
+/-- a stage that yields nothing ends the pipe with nothing; an abort is propagated -/
+theorem pipeGo_stops (ev : Ev) : ∀ (es : List Expr) (vs : List JV) (c : Ctx) (e : Expr) (rest : List Expr),
+    PipeRun ev c es vs →
+    (ev e (pipeCtx c vs) = .ok none → callBasic.go ev c (es ++ e :: rest) = .ok none) ∧
+    (∀ a, ev e (pipeCtx c vs) = .error a → callBasic.go ev c (es ++ e :: rest) = .error a) := by
+  intro es
+  induction es with
+  | nil =>
+    intro vs c e rest h
+    cases vs with
+    | nil =>
+      constructor
+      · intro h0; rw [List.nil_append, pipeGo_cons]; rw [show pipeCtx c [] = c from rfl] at h0; rw [h0]
+      · intro a h0; rw [List.nil_append, pipeGo_cons]; rw [show pipeCtx c [] = c from rfl] at h0; rw [h0]
+    | cons _ _ => exact h.elim
+  | cons e1 es ih =>
+    intro vs c e rest h
+    cases vs with
+    | nil => exact h.elim
+    | cons v vs =>
+      obtain ⟨h1, h2⟩ := h
+      have := ih vs (c.withInput v) e rest h2
+      rw [List.cons_append, pipeGo_cons, h1]
+      exact this
+
+/-- three stages, spelled out: `(| a b c)` is `c` on the value of `b` on the value of `a` -/
+theorem pipe_threads_3 (ev : Ev) (a b c : Expr) (ctx : Ctx) (va vb vc : JV)
+    (ha : ev a (ctx.withInput ctx.input) = .ok (some va))
+    (hb : ev b ((ctx.withInput ctx.input).withInput va) = .ok (some vb))
+    (hc : ev c (((ctx.withInput ctx.input).withInput va).withInput vb) = .ok (some vc)) :
+    callBasic ev "|" [a, b, c] ctx = some (.ok (some vc)) ∧
+    (((ctx.withInput ctx.input).withInput va).withInput vb).input = vb ∧
+    (((ctx.withInput ctx.input).withInput va).withInput vb).parents = va :: ctx.input :: ctx.input :: ctx.parents ∧
+    (((ctx.withInput ctx.input).withInput va).withInput vb).vars = ctx.vars ∧
+    (((ctx.withInput ctx.input).withInput va).withInput vb).defs = ctx.defs :=
+  ⟨pipe_threads_n ev [a, b, c] [va, vb, vc] ctx ⟨ha, hb, hc, trivial⟩, rfl, rfl, rfl, rfl⟩
+
+/-! ### Non-vacuity of the hypotheses used above -/
+
+namespace Ex
+/-- `eval_fuel_mono`: a value found with fuel 3 -/
+example : eval {} 3 (.call "concat" [str "a", str "b"]) {} = .ok (some (.str "ab".toList)) := rfl
+/-- fuel really matters only through `overflow` -/
+example : eval {} 1 (.call "concat" [str "a", str "b"]) {} = .error .overflow := rfl
+
+/-- `presets_are_substitution` / `processP_subst_var`: a preset table binding `x`, a select reading it -/
+example : Ctx.lookup [("x".toList, num 1)] "x".toList = some (num 1) := rfl
+example : ∀ c ∈ [StageCfg.select "a".toList (v "x"), .filter (.call "=" [v "x", lit 1])], isPreset c = false := by
+  intro c hc
+  simp only [List.mem_cons, List.not_mem_nil, or_false] at hc
+  rcases hc with rfl | rfl <;> rfl
+example : (presetCtx [("x".toList, num 1)] [] {}).getVariable "x".toList = some (num 1) := rfl
+
+/-- `process_selects`: two selects that evaluate fine, the second reading the first's `^`-free input -/
+example : SelOk {} [("a".toList, .extract 0 []), ("b".toList, .extract 0 [])] { input := num 5 } :=
+  ⟨some (num 5), rfl, some (num 5), rfl, trivial⟩
+example : [("a".toList, Expr.extract 0 []), ("b".toList, .extract 1 [])][1]? = some ("b".toList, .extract 1 []) := rfl
+
+/-- `pipe_threads_n`: `(| "a" (concat . "b") (concat . "c"))` -/
+example : PipeRun (eval {} 5) (({} : Ctx).withInput .null)
+    [str "a", .call "concat" [.extract 0 [], str "b"], .call "concat" [.extract 0 [], .extract 1 []]]
+    [.str "a".toList, .str "ab".toList, .str "aba".toList] := ⟨rfl, rfl, rfl, trivial⟩
+end Ex
+
+/-! ### The lexical fragment: where a binding can be dropped after substitution -/
+
+/-- names that make the value of an expression depend on bindings that substitution cannot see:
+computed variable / macro names, parsed selections, macro definitions -/
+def dynamicFns : List String := [":", "@", "parse_selection", "define"]
+
+mutual
+/-- `noRead N e`: `e` has no dynamic feature (no `@m`, no call of `dynamicFns`, every `set` has a
+literal name and a value) and no free `:k` with `k ∈ N`.  Decidable, syntactic. -/
+def noRead (N : List Str) : Expr → Bool
+  | .var k => decide (k ∉ N)
+  | .macro _ => false
+  | .call fn args =>
+    if fn = "set" then noReadSet N args
+    else if fn ∈ dynamicFns then false
+    else noReadList N args
+  | _ => true
+def noReadSet (N : List Str) : List Expr → Bool
+  | .const (.str k) :: v :: rest => noRead N v && noReadList (N.filter (fun j => decide (j ≠ k))) rest
+  | _ => false
+def noReadList (N : List Str) : List Expr → Bool
+  | [] => true
+  | e :: es => noRead N e && noReadList N es
+end
+
+/-- the lexical fragment: variables, literal-name `set`, every function except `dynamicFns` -/
+def Lexical (e : Expr) : Prop := noRead [] e = true
+
+instance (e : Expr) : Decidable (Lexical e) := inferInstanceAs (Decidable (_ = true))
+
+/-- two contexts that differ at most in the variables named in `N` -/
+def AgreeOff (N : List Str) (c c' : Ctx) : Prop :=
+  c.input = c'.input ∧ c.parents = c'.parents ∧ c.results = c'.results ∧ c.defs = c'.defs ∧
+  c.ictx = c'.ictx ∧ ∀ k, k ∉ N → c.getVariable k = c'.getVariable k
+
+theorem AgreeOff.symm {N c c'} (h : AgreeOff N c c') : AgreeOff N c' c :=
+  ⟨h.1.symm, h.2.1.symm, h.2.2.1.symm, h.2.2.2.1.symm, h.2.2.2.2.1.symm, fun k hk => (h.2.2.2.2.2 k hk).symm⟩
+
+theorem AgreeOff.withInput {N c c'} (h : AgreeOff N c c') (v : JV) : AgreeOff N (c.withInput v) (c'.withInput v) := by
+  obtain ⟨h1, h2, h3, h4, h5, h6⟩ := h
+  refine ⟨rfl, ?_, rfl, h4, h5, h6⟩
+  show c.input :: c.parents = c'.input :: c'.parents
+  rw [h1, h2]
+
+theorem AgreeOff.withVariable {N c c'} (h : AgreeOff N c c') (k : Str) (x : JV) :
+    AgreeOff (N.filter (fun j => decide (j ≠ k))) (c.withVariable k x) (c'.withVariable k x) := by
+  obtain ⟨h1, h2, h3, h4, h5, h6⟩ := h
+  refine ⟨h1, h2, h3, h4, h5, fun j hj => ?_⟩
+  by_cases hjk : k = j
+  · subst hjk; simp [Ctx.withVariable, Ctx.getVariable, Ctx.lookup]
+  · rw [getVariable_withVariable_ne x hjk, getVariable_withVariable_ne x hjk]
+    apply h6
+    intro hmem
+    exact hj (List.mem_filter.2 ⟨hmem, by simpa using fun h => hjk h.symm⟩)
+
+theorem noReadList_get {N : List Str} : ∀ {l : List Expr}, noReadList N l = true → ∀ e ∈ l, noRead N e = true
+  | [], _, _, he => by cases he
+  | x :: xs, h, e, he => by
+    rw [noReadList, Bool.and_eq_true] at h
+    rcases List.mem_cons.1 he with rfl | he'
+    · exact h.1
+    · exact noReadList_get h.2 e he'
+
+theorem args_of_noRead {Q : Expr → Expr → Prop} {N : List Str} (hq : ∀ e, noRead N e = true → Q e e) :
+    ∀ l : List Expr, noReadList N l = true → Args Q l l
+  | [], _ => Args.nil
+  | x :: xs, h => by
+    rw [noReadList, Bool.and_eq_true] at h
+    exact Args.cons (hq x h.1) (args_of_noRead hq xs h.2)
+
+/-- what `(set nameE v …)` computes, any number of further arguments -/
+theorem eval_set_args (orc : Oracles) (fuel : Nat) (nameE v : Expr) (rest : List Expr) (ctx : Ctx) :
+    eval orc (fuel + 1) (.call "set" (nameE :: v :: rest)) ctx =
+      (do let rn ← eval orc fuel nameE ctx
+          let rv ← eval orc fuel v ctx
+          match strArg rn, rv with
+          | some n, some x => applyArg (eval orc fuel) rest (ctx.withVariable n x) 0
+          | _, _ => .ok none) := by
+  simp only [eval]
+  show (do let rn ← eval orc fuel nameE ctx
+           let rv ← eval orc fuel v ctx
+           match strArg rn, rv with
+           | some n, some x => applyArg (eval orc fuel) (nameE :: v :: rest) (ctx.withVariable n x) 2
+           | _, _ => .ok none) = _
+  simp only [applyArg_two]
+
+theorem eval_const_ctx (orc : Oracles) (f : Nat) (v : JV) (c c' : Ctx) :
+    eval orc f (.const v) c = eval orc f (.const v) c' := by
+  cases f <;> rfl
+
+/-- **Irrelevance.**  An expression without dynamic features and without free `:k`, `k ∈ N`,
+evaluates alike in contexts that differ only in the variables `N`. -/
+theorem eval_agree_le (orc : Oracles) : ∀ (f : Nat) (e : Expr) (N : List Str) (c c' : Ctx),
+    noRead N e = true → AgreeOff N c c' → Le (eval orc f e c) (eval orc f e c') := by
+  intro f
+  induction f with
+  | zero => intro e N c c' _ _; exact Or.inl rfl
+  | succ f ih =>
+    intro e N c c' hn hc
+    obtain ⟨h1, h2, h3, h4, h5, h6⟩ := hc
+    cases e with
+    | extract p steps => simp only [eval, Ctx.parentInput, h1, h2]; exact Le.refl _
+    | const v => exact Le.refl _
+    | var k =>
+      simp only [eval]
+      rw [h6 k (by simpa [noRead] using hn)]
+      exact Le.refl _
+    | «macro» k => simp [noRead] at hn
+    | selected t => simp only [eval, Ctx.getSelected, h3]; exact Le.refl _
+    | ictx k => simp only [eval, h5]; exact Le.refl _
+    | call fn args =>
+      rw [noRead] at hn
+      split at hn
+      · next hfn =>
+        subst hfn
+        unfold noReadSet at hn
+        split at hn
+        · next k v rest =>
+          rw [Bool.and_eq_true] at hn
+          rw [eval_set_args, eval_set_args, eval_const_ctx orc f _ c c']
+          apply Le.bind (Le.refl _)
+          intro rn hrn
+          apply Le.bind (ih v N c c' hn.1 ⟨h1, h2, h3, h4, h5, h6⟩)
+          intro rv _
+          split
+          · next n' x hsn _ =>
+            have hk : n' = k := by
+              cases f with
+              | zero => cases hrn
+              | succ f =>
+                simp only [eval] at hrn
+                cases hrn
+                simpa [strArg] using hsn.symm
+            subst hk
+            exact applyArg_le2 (CR := AgreeOff (N.filter (fun j => decide (j ≠ n'))))
+              (args_of_noRead (fun e he c c' hcc => ih e _ c c' he hcc) rest hn.2) 0 _ _
+              (AgreeOff.withVariable ⟨h1, h2, h3, h4, h5, h6⟩ n' x)
+          · exact Le.refl _
+        · cases hn
+      · split at hn
+        · cases hn
+        · next hset hdyn =>
+          simp only [eval]
+          have hd : ∀ s ∈ dynamicFns, fn ≠ s := fun s hs h => hdyn (h ▸ hs)
+          apply callFn_le2 (CR := AgreeOff N)
+          refine ⟨⟨h1, h2, h3, h4, h5, h6⟩, fun _ _ v h => h.withInput v, fun _ _ h => h.1, ?_, ?_, ?_, ?_, ?_, ?_⟩
+          · exact args_of_noRead (fun e he c c' hcc => ih e N c c' he hcc) args hn
+          · rintro (h | h)
+            · exact absurd h (hd _ (by simp [dynamicFns]))
+            · exact absurd h (hd _ (by simp [dynamicFns]))
+          · intro h; exact absurd h (hd _ (by simp [dynamicFns]))
+          · intro h; exact absurd h (hd _ (by simp [dynamicFns]))
+          · intro h; exact absurd h hset
+          · intro h; exact absurd h (hd _ (by simp [dynamicFns]))
+
+theorem eval_agree (orc : Oracles) (f : Nat) (e : Expr) (N : List Str) (c c' : Ctx)
+    (hn : noRead N e = true) (hc : AgreeOff N c c') : eval orc f e c = eval orc f e c' :=
+  Le.antisymm (eval_agree_le orc f e N c c' hn hc) (eval_agree_le orc f e N c' c hn hc.symm)
+
+theorem filter_ne_comm (N : List Str) (a b : Str) :
+    (N.filter (fun j => decide (j ≠ a))).filter (fun j => decide (j ≠ b)) =
+      (N.filter (fun j => decide (j ≠ b))).filter (fun j => decide (j ≠ a)) := by
+  simp only [List.filter_filter]
+  congr 1
+  funext j
+  exact Bool.and_comm _ _
+
+theorem filter_ne_idem (N : List Str) (a : Str) :
+    (N.filter (fun j => decide (j ≠ a))).filter (fun j => decide (j ≠ a)) = N.filter (fun j => decide (j ≠ a)) := by
+  simp only [List.filter_filter, Bool.and_self]
+
+mutual
+/-- after substitution of `x` for `:n`, a lexical expression no longer reads `n` -/
+theorem noRead_subst (n : Str) (x : JV) : ∀ (e : Expr) (N : List Str),
+    noRead (N.filter (fun j => decide (j ≠ n))) e = true → noRead N (substVar n x e) = true
+  | .var k, N, h => by
+    rw [substVar]
+    split
+    · rfl
+    · next hne =>
+      simp only [noRead, decide_eq_true_eq, List.mem_filter, not_and] at h ⊢
+      intro hm
+      exact h hm (by simpa using hne)
+  | .call fn args, N, h => by
+    rw [substVar_call]
+    rw [noRead] at h ⊢
+    unfold substVarArgs
+    split
+    · next hfn => simp only [hfn, if_true] at h ⊢; exact noReadSet_subst n x args N h
+    · next hfn =>
+      simp only [hfn, if_false] at h ⊢
+      split at h
+      · cases h
+      · next hdyn =>
+        have hdef : fn ≠ "define" := fun hd => hdyn (hd ▸ by simp [dynamicFns])
+        simp only [hdef, if_false, hdyn]
+        exact noReadList_subst n x args N h
+  | .extract _ _, _, _ => rfl
+  | .const _, _, _ => rfl
+  | .macro _, _, h => by simp [noRead] at h
+  | .selected _, _, _ => rfl
+  | .ictx _, _, _ => rfl
+theorem noReadSet_subst (n : Str) (x : JV) : ∀ (l : List Expr) (N : List Str),
+    noReadSet (N.filter (fun j => decide (j ≠ n))) l = true → noReadSet N (substVarSet n x l) = true
+  | .const (.str k) :: v :: rest, N, h => by
+    rw [noReadSet, Bool.and_eq_true] at h
+    rw [substVarSet]
+    split
+    · next hk =>
+      subst hk
+      rw [noReadSet, Bool.and_eq_true]
+      refine ⟨noRead_subst _ x v N h.1, ?_⟩
+      have := h.2
+      rw [filter_ne_idem] at this
+      exact this
+    · rw [noReadSet, Bool.and_eq_true]
+      refine ⟨noRead_subst n x v N h.1, ?_⟩
+      apply noReadList_subst n x rest
+      rw [filter_ne_comm]
+      exact h.2
+  | [], _, h => by simp [noReadSet] at h
+  | [_], _, h => by
+    rw [noReadSet] at h
+    · cases h
+    · intro k v rest hh; cases hh
+  | .extract _ _ :: _ :: _, _, h => by simp [noReadSet] at h
+  | .var _ :: _ :: _, _, h => by simp [noReadSet] at h
+  | .macro _ :: _ :: _, _, h => by simp [noReadSet] at h
+  | .selected _ :: _ :: _, _, h => by simp [noReadSet] at h
+  | .ictx _ :: _ :: _, _, h => by simp [noReadSet] at h
+  | .call _ _ :: _ :: _, _, h => by simp [noReadSet] at h
+  | .const .null :: _ :: _, _, h => by simp [noReadSet] at h
+  | .const (.bool _) :: _ :: _, _, h => by simp [noReadSet] at h
+  | .const (.num _) :: _ :: _, _, h => by simp [noReadSet] at h
+  | .const (.arr _) :: _ :: _, _, h => by simp [noReadSet] at h
+  | .const (.obj _) :: _ :: _, _, h => by simp [noReadSet] at h
+theorem noReadList_subst (n : Str) (x : JV) : ∀ (l : List Expr) (N : List Str),
+    noReadList (N.filter (fun j => decide (j ≠ n))) l = true → noReadList N (substVarList n x l) = true
+  | [], _, _ => by rw [substVarList]; rfl
+  | e :: es, N, h => by
+    rw [noReadList, Bool.and_eq_true] at h
+    rw [substVarList, noReadList, Bool.and_eq_true]
+    exact ⟨noRead_subst n x e N h.1, noReadList_subst n x es N h.2⟩
+end
+
+/-- **`set` is substitution, closed form.**  For a lexical body (no macro use, no computed
+variable / macro name, no parsed selection, no `define`), `(set "n" v e)` evaluates exactly like `e`
+with `x` (the value of `v`) substituted for the free `:n` — in the *original* context: nothing else
+is changed by the binding. -/
+theorem set_is_substitution_lexical (orc : Oracles) (fuel : Nat) (n : Str) (v e : Expr) (ctx : Ctx) (x : JV)
+    (hl : Lexical e) (hv : eval orc fuel v ctx = .ok (some x)) :
+    eval orc (fuel + 1) (.call "set" [.const (.str n), v, e]) ctx = eval orc fuel (substVar n x e) ctx := by
+  rw [set_is_substitution orc fuel n v e ctx x hv]
+  apply eval_agree orc fuel _ [n]
+  · exact noRead_subst n x e [n] (by simpa [Lexical] using hl)
+  · refine ⟨rfl, rfl, rfl, rfl, rfl, fun k hk => ?_⟩
+    exact getVariable_withVariable_ne x (fun h : n = k => hk (by simp [h]))
+
+/-! ### The macro-free fragment: where a macro binding can be dropped after substitution -/
+
+/-- functions whose value depends on the macro table -/
+def defFns : List String := ["@", "parse_selection", "define"]
+
+mutual
+/-- `e` never consults the macro table -/
+def noDefs : Expr → Bool
+  | .macro _ => false
+  | .call fn args => decide (fn ∉ defFns) && noDefsList args
+  | _ => true
+def noDefsList : List Expr → Bool
+  | [] => true
+  | e :: es => noDefs e && noDefsList es
+end
+
+mutual
+/-- the only use of the macro table in `e` is `@n` -/
+def onlyMacro (n : Str) : Expr → Bool
+  | .macro k => decide (k = n)
+  | .call fn args => decide (fn ∉ defFns) && onlyMacroList n args
+  | _ => true
+def onlyMacroList (n : Str) : List Expr → Bool
+  | [] => true
+  | e :: es => onlyMacro n e && onlyMacroList n es
+end
+
+/-- two contexts that differ at most in their macro tables -/
+def AgreeDefs (c c' : Ctx) : Prop :=
+  c.input = c'.input ∧ c.parents = c'.parents ∧ c.results = c'.results ∧ c.vars = c'.vars ∧ c.ictx = c'.ictx
+
+theorem AgreeDefs.symm {c c'} (h : AgreeDefs c c') : AgreeDefs c' c :=
+  ⟨h.1.symm, h.2.1.symm, h.2.2.1.symm, h.2.2.2.1.symm, h.2.2.2.2.symm⟩
+
+theorem AgreeDefs.withInput {c c'} (h : AgreeDefs c c') (v : JV) : AgreeDefs (c.withInput v) (c'.withInput v) := by
+  obtain ⟨h1, h2, h3, h4, h5⟩ := h
+  refine ⟨rfl, ?_, rfl, h4, h5⟩
+  show c.input :: c.parents = c'.input :: c'.parents
+  rw [h1, h2]
+
+theorem AgreeDefs.withVariable {c c'} (h : AgreeDefs c c') (k : Str) (x : JV) :
+    AgreeDefs (c.withVariable k x) (c'.withVariable k x) := by
+  obtain ⟨h1, h2, h3, h4, h5⟩ := h
+  refine ⟨h1, h2, h3, ?_, h5⟩
+  show (k, x) :: c.vars = (k, x) :: c'.vars
+  rw [h4]
+
+theorem args_of_noDefs {Q : Expr → Expr → Prop} (hq : ∀ e, noDefs e = true → Q e e) :
+    ∀ l : List Expr, noDefsList l = true → Args Q l l
+  | [], _ => Args.nil
+  | x :: xs, h => by
+    rw [noDefsList, Bool.and_eq_true] at h
+    exact Args.cons (hq x h.1) (args_of_noDefs hq xs h.2)
+
+/-- **Irrelevance of the macro table** for an expression that never consults it -/
+theorem eval_noDefs_le (orc : Oracles) : ∀ (f : Nat) (e : Expr) (c c' : Ctx),
+    noDefs e = true → AgreeDefs c c' → Le (eval orc f e c) (eval orc f e c') := by
+  intro f
+  induction f with
+  | zero => intro e c c' _ _; exact Or.inl rfl
+  | succ f ih =>
+    intro e c c' hn hc
+    obtain ⟨h1, h2, h3, h4, h5⟩ := hc
+    cases e with
+    | extract p steps => simp only [eval, Ctx.parentInput, h1, h2]; exact Le.refl _
+    | const v => exact Le.refl _
+    | var k => simp only [eval, Ctx.getVariable, h4]; exact Le.refl _
+    | «macro» k => simp [noDefs] at hn
+    | selected t => simp only [eval, Ctx.getSelected, h3]; exact Le.refl _
+    | ictx k => simp only [eval, h5]; exact Le.refl _
+    | call fn args =>
+      rw [noDefs, Bool.and_eq_true, decide_eq_true_eq] at hn
+      obtain ⟨hfn, hargs⟩ := hn
+      have hd : ∀ s ∈ defFns, fn ≠ s := fun s hs h => hfn (h ▸ hs)
+      have hrel : Args (QArg2 (eval orc f) (eval orc f) AgreeDefs) args args :=
+        args_of_noDefs (fun e he c c' hcc => ih e c c' he hcc) args hargs
+      simp only [eval]
+      apply callFn_le2 (CR := AgreeDefs)
+      refine ⟨⟨h1, h2, h3, h4, h5⟩, fun _ _ v h => h.withInput v, fun _ _ h => h.1, hrel, ?_, ?_, ?_, ?_, ?_⟩
+      · rintro (h | h)
+        · exact absurd h (hd _ (by simp [defFns]))
+        · exact absurd h (hd _ (by simp [defFns]))
+      · intro _ k; simp only [Ctx.getVariable, h4]
+      · intro h; exact absurd h (hd _ (by simp [defFns]))
+      · intro _ r k v _ _
+        exact applyArg_le2 hrel 2 _ _ (AgreeDefs.withVariable ⟨h1, h2, h3, h4, h5⟩ k v)
+      · intro h; exact absurd h (hd _ (by simp [defFns]))
+
+theorem eval_noDefs (orc : Oracles) (f : Nat) (e : Expr) (c c' : Ctx)
+    (hn : noDefs e = true) (hc : AgreeDefs c c') : eval orc f e c = eval orc f e c' :=
+  Le.antisymm (eval_noDefs_le orc f e c c' hn hc) (eval_noDefs_le orc f e c' c hn hc.symm)
+
+mutual
+theorem noDefs_substMacro (n : Str) (m : Expr) (hm : noDefs m = true) : ∀ (e : Expr),
+    onlyMacro n e = true → noDefs (substMacro n m e) = true
+  | .macro k, h => by
+    rw [onlyMacro, decide_eq_true_eq] at h
+    rw [substMacro, if_pos h]; exact hm
+  | .call fn args, h => by
+    rw [onlyMacro, Bool.and_eq_true, decide_eq_true_eq] at h
+    have hdef : fn ≠ "define" := fun hd => h.1 (hd ▸ by simp [defFns])
+    rw [substMacro_call, substMacroArgs, if_neg hdef, noDefs, Bool.and_eq_true, decide_eq_true_eq]
+    exact ⟨h.1, noDefsList_substMacro n m hm args h.2⟩
+  | .extract _ _, _ => rfl
+  | .const _, _ => rfl
+  | .var _, _ => rfl
+  | .selected _, _ => rfl
+  | .ictx _, _ => rfl
+theorem noDefsList_substMacro (n : Str) (m : Expr) (hm : noDefs m = true) : ∀ (l : List Expr),
+    onlyMacroList n l = true → noDefsList (substMacroList n m l) = true
+  | [], _ => by rw [substMacroList]; rfl
+  | e :: es, h => by
+    rw [onlyMacroList, Bool.and_eq_true] at h
+    rw [substMacroList, noDefsList, Bool.and_eq_true]
+    exact ⟨noDefs_substMacro n m hm e h.1, noDefsList_substMacro n m hm es h.2⟩
+end
+
+/-- **`define` is substitution, closed form.**  If the body uses the macro table only through `@n`
+and `m` not at all, `(define "n" m e)` has exactly the values of `e` with `m` substituted for `@n`,
+in the *original* context, up to the fuel spent on the `@n` steps. -/
+theorem define_is_substitution_lexical (orc : Oracles) (fuel : Nat) (n : Str) (m e : Expr) (ctx : Ctx)
+    (r : Option JV) (he : onlyMacro n e = true) (hm : noDefs m = true) :
+    (eval orc (fuel + 2) (.call "define" [.const (.str n), m, e]) ctx = .ok r →
+      eval orc (fuel + 1) (substMacro n m e) ctx = .ok r) ∧
+    (eval orc fuel (substMacro n m e) ctx = .ok r →
+      eval orc (fuel + 2) (.call "define" [.const (.str n), m, e]) ctx = .ok r) := by
+  have hnd := noDefs_substMacro n m hm e he
+  have hag : AgreeDefs (ctx.withDefinition n m) ctx := ⟨rfl, rfl, rfl, rfl, rfl⟩
+  constructor
+  · intro h
+    rw [← eval_noDefs orc _ _ _ _ hnd hag]
+    exact define_is_substitution orc fuel n m e ctx r h
+  · intro h
+    rw [← eval_noDefs orc _ _ _ _ hnd hag] at h
+    exact define_is_substitution_conv orc fuel n m e ctx r h
+
+namespace Ex
+/-- the lexical fragment is inhabited by real programs: `(set "y" "b" (map . (concat :x :y ^)))` -/
+example : Lexical (.call "set" [str "y", str "b",
+    .call "map" [.extract 0 [], .call "concat" [v "x", v "y", .extract 1 []]]]) := by decide
+/-- … and excludes the dynamic ones -/
+example : ¬ Lexical (mac "m") := by decide
+example : ¬ Lexical dynName := by decide
+example : ¬ Lexical (.call ":" [str "x"]) := by decide
+/-- closed form on a concrete instance: both sides are the same value -/
+example : eval {} 5 (.call "set" [str "x", str "a", .call "set" [str "y", str "b", .call "concat" [v "x", v "y"]]]) {}
+    = eval {} 4 (substVar "x".toList (.str "a".toList) (.call "set" [str "y", str "b", .call "concat" [v "x", v "y"]])) {} := rfl
+example : onlyMacro "m".toList (.call "concat" [mac "m", mac "m"]) = true := by decide
+example : noDefs (.call "concat" [str "a", v "x"]) = true := by decide
+end Ex
+
+/- axiom audit (all ⊆ {propext, Classical.choice, Quot.sound}):
+#print axioms callFn_le2
+#print axioms eval_fuel_mono
+#print axioms subst_var
+#print axioms set_is_substitution
+#print axioms set_is_substitution_lexical
+#print axioms subst_macro
+#print axioms subst_macro_conv
+#print axioms define_is_substitution_lexical
+#print axioms presets_are_substitution
+#print axioms selects_see_same_ctx
+#print axioms process_selects
+#print axioms pipe_threads_n
+-/
 
 end Jawk.Subst
